@@ -4,6 +4,9 @@ the invariant `Inv` (and therefore the declarative trace property `TraceOk`).
 -/
 import Goat.Proofs.PipelineInv
 
+set_option linter.unusedSimpArgs false
+set_option linter.unusedVariables false
+
 namespace Goat.Pipeline
 
 /-! ### Generic assembly lemmas -/
@@ -91,8 +94,7 @@ theorem YI.frame {g : Graph} {s s' : St} {y : Nat} (h : YI g s y) {es : List Ev}
 
 theorem MI.frame {g : Graph} {s s' : St} (h : MI g s) {es : List Ev}
     (htr : s'.tr = s.tr ++ es) (hmp : s'.mp = s.mp)
-    (hno : ∀ t, Ev.acc t ∉ es ∧ Ev.rej t ∉ es)
-    (hpc : ∀ u, s.pc u ≠ .idle → s'.pc u ≠ .idle) : MI g s' := by
+    (hno : ∀ t, Ev.acc t ∉ es ∧ Ev.rej t ∉ es) : MI g s' := by
   constructor
   · intro j hj t ht
     rw [hmp] at hj
@@ -112,9 +114,6 @@ theorem MI.frame {g : Graph} {s s' : St} (h : MI g s) {es : List Ev}
   · intro hm
     rw [hmp] at hm
     rw [htr]; exact hasMwait_mono es (h.mw hm)
-  · intro hm t hr ht
-    rw [hmp] at hm
-    exact hpc t (h.late hm t hr ht)
 
 theorem i2_frame {g : Graph} {s s' : St} (hI : Inv g s) {es : List Ev}
     (htr : s'.tr = s.tr ++ es)
@@ -128,10 +127,36 @@ theorem i2_frame {g : Graph} {s s' : St} (hI : Inv g s) {es : List Ev}
     · exact Or.inr (causeIn_mono es h)
   · exact h
 
+theorem i3_frame {g : Graph} {s s' : St} (h3 : I3 g s) {es : List Ev} (htr : s'.tr = s.tr ++ es)
+    (hkeep : ∀ u, (s.pc u).accepted = true → s.cerr (g.ctx u) = true →
+      (s'.pc u).accepted = true ∧ (s'.pc u = .finished → s.pc u = .finished ∨ Ev.done u false ∈ s'.tr))
+    (hnew : ∀ X, s'.cerr X = true → s.cerr X = true ∨
+      ∃ u, g.ctx u = X ∧ (s'.pc u).accepted = true ∧ s'.pc u ≠ .finished) : I3 g s' := by
+  intro X hX
+  rcases hnew X hX with h | ⟨u, h1, h2, h3'⟩
+  · obtain ⟨u, hu, ha, hd⟩ := h3 X h
+    obtain ⟨ha', hf'⟩ := hkeep u ha (by rw [hu]; exact h)
+    refine ⟨u, hu, ha', ?_⟩
+    rcases Classical.em (s'.pc u = .finished) with hfin | hfin
+    · rcases hf' hfin with h4 | h4
+      · rcases hd with h5 | h5
+        · exact absurd h4 h5
+        · exact Or.inr (by rw [htr]; exact List.mem_append_left _ h5)
+      · exact Or.inr h4
+    · exact Or.inl hfin
+  · exact ⟨u, h1, h2, Or.inl h3'⟩
+
+/-- `i3_frame` when no task moves and no flag changes -/
+theorem i3_same {g : Graph} {s s' : St} (h3 : I3 g s) {es : List Ev} (htr : s'.tr = s.tr ++ es)
+    (hpc : s'.pc = s.pc) (hcerr : s'.cerr = s.cerr) : I3 g s' :=
+  i3_frame h3 htr (fun u ha _ => ⟨by rw [hpc]; exact ha, fun h => Or.inl (by rw [hpc] at h; exact h)⟩)
+    (fun X hX => Or.inl (by rw [hcerr] at hX; exact hX))
+
 /-! ### The initial state -/
 
 theorem inv_init (g : Graph) : Inv g init := by
-  refine ⟨fun u => ?_, fun y _ => ?_, ?_, ?_, ?_, traceOk_nil g⟩
+  refine ⟨fun u => ?_, fun y _ => ?_, ?_, ?_, ?_, traceOk_nil g, fun y h => by simp [init] at h,
+    fun X h => by simp [init] at h⟩
   · constructor <;> simp [init, PC.accepted, issued, returned, okUpTo, hasDone, acceptedEv]
     · split <;> simp
   · constructor <;> simp [init, TG.rank]
@@ -149,14 +174,11 @@ theorem accepted_upd {pc : Nat → PC} {t : Nat} {q : PC} (hq : (pc t).accepted 
 
 theorem parentAt_upd {g : Graph} {s s' : St} {t : Nat} {q : PC} (hpc : s'.pc = upd s.pc t q)
     (hna : ∀ i, s.pc t ≠ .afterCmd i) {u : Nat} (h : parentAt g s u) : parentAt g s' u := by
-  unfold parentAt at *
-  rw [hpc]
-  split at h
-  · trivial
-  all_goals
-    rw [upd_other]
-    · exact h
-    · intro heq; rw [heq] at h; exact hna _ h
+  intro p i hp
+  have := h p i hp
+  rw [hpc, upd_other]
+  · exact this
+  · intro heq; rw [heq] at this; exact hna _ this
 
 theorem traceOk_ext {g : Graph} {tr es : List Ev} (h : TraceOk g tr) (hlen : es.length ≤ 1)
     (hok : ∀ e ∈ es, Ok g tr e) : TraceOk g (tr ++ es) := by
@@ -180,10 +202,12 @@ theorem inv_move {g : Graph} {s s' : St} (hI : Inv g s) {t : Nat} {q : PC} {es :
     (hpar : ∀ u, u ≠ t → (s.pc u).accepted = true → s.pc u ≠ .finished → parentAt g s u → parentAt g s' u)
     (hpart : q ≠ .finished → parentAt g s' t)
     (hown : ∀ y, y < g.tries.length → s.tg y ≠ .idle → s.tg y ≠ .done → (g.tryd y).owner ≠ t)
-    (hnr : ∀ y, y < g.tries.length → Ev.ret (g.tryd y).owner (g.tryd y).idx true ∈ es → s.tg y ≠ .idle) :
+    (hnr : ∀ y, y < g.tries.length → Ev.ret (g.tryd y).owner (g.tryd y).idx true ∈ es → s.tg y ≠ .idle)
+    (hi3 : ∀ X, s'.cerr X = true → s.cerr X = true ∨ (X = g.ctx t ∧ q ≠ .finished))
+    (hfin3 : q = .finished → s.cerr (g.ctx t) = true → Ev.done t false ∈ s'.tr) :
     Inv g s' := by
   have hne : s.pc t ≠ .idle := by intro h; rw [h] at hacc; simp [PC.accepted] at hacc
-  refine ⟨?_, ?_, ?_, ?_, ?_, ?_⟩
+  refine ⟨?_, ?_, ?_, ?_, ?_, ?_, ?_, ?_⟩
   · apply ti_frame_all hI htr hfd hce (fun y => by rw [htg]; exact Nat.le_refl _) (fun u => u = t)
     · intro u hu
       exact ⟨by rw [hpc]; exact upd_other _ _ hu, hev u hu⟩
@@ -204,11 +228,2408 @@ theorem inv_move {g : Graph} {s s' : St} (hI : Inv g s) {t : Nat} {q : PC} {es :
       exact hpart hf
     · rw [hpc, upd_other _ _ hu] at ha hf
       exact hpar u hu ha hf (hI.x3 u ha hf)
-  · apply hI.mi.frame htr hmp hnoacc
-    intro u hu; rw [hpc, upd_apply]; split
-    · intro h; rw [h] at hqacc; simp [PC.accepted] at hqacc
-    · exact hu
+  · exact hI.mi.frame htr hmp hnoacc
   · exact i2_frame hI htr hi2
   · rw [htr]; exact traceOk_ext hI.ok hlen hok
+  · rw [htg]; exact hI.tgr
+  · apply i3_frame hI.i3 htr
+    · intro u ha hc
+      by_cases hu : u = t
+      · subst hu
+        rw [hpc, upd_same]
+        exact ⟨hqacc, fun hq' => Or.inr (hfin3 hq' hc)⟩
+      · rw [hpc, upd_other _ _ hu]
+        exact ⟨ha, fun h => Or.inl h⟩
+    · intro X hX
+      rcases hi3 X hX with h | ⟨h1, h2⟩
+      · exact Or.inl h
+      · exact Or.inr ⟨t, h1.symm, by rw [hpc, upd_same]; exact hqacc, by rw [hpc, upd_same]; exact h2⟩
+
+/-- `inv_move` for a task that is not blocked in a command (no child can be waiting on it moving) -/
+theorem inv_move_na {g : Graph} {s s' : St} (hI : Inv g s) {t : Nat} {q : PC} {es : List Ev}
+    (hpc : s'.pc = upd s.pc t q) (htr : s'.tr = s.tr ++ es) (htg : s'.tg = s.tg) (hmp : s'.mp = s.mp)
+    (hlen : es.length ≤ 1)
+    (hacc : (s.pc t).accepted = true) (hnf : s.pc t ≠ .finished) (hna : ∀ i, s.pc t ≠ .afterCmd i)
+    (hqacc : q.accepted = true)
+    (hq : TI g t q s'.tr (s'.cerr (g.ctx t)) (s.tg (tryOf g t)))
+    (hfd : FreshDone s.tr es)
+    (hev : ∀ u, u ≠ t → ∀ e ∈ es, ¬ touches g u e)
+    (hce : ∀ X, s.cerr X = true → s'.cerr X = true)
+    (hi2 : ∀ X, s'.cerr X = true → s.cerr X = true ∨ causeIn g X s'.tr ∨ causeIn g 0 s'.tr)
+    (hok : ∀ e ∈ es, Ok g s.tr e)
+    (hnoacc : ∀ u, Ev.acc u ∉ es ∧ Ev.rej u ∉ es)
+    (hnr : ∀ y, y < g.tries.length → Ev.ret (g.tryd y).owner (g.tryd y).idx true ∈ es → s.tg y ≠ .idle)
+    (hi3 : ∀ X, s'.cerr X = true → s.cerr X = true ∨ (X = g.ctx t ∧ q ≠ .finished))
+    (hfin3 : q = .finished → s.cerr (g.ctx t) = true → Ev.done t false ∈ s'.tr) :
+    Inv g s' := by
+  apply inv_move hI hpc htr htg hmp hlen hacc hqacc hq hfd hev hce hi2 hok hnoacc
+    (hi3 := hi3) (hfin3 := hfin3)
+  · intro u _ _ _ h; exact parentAt_upd hpc hna h
+  · intro _; exact parentAt_upd hpc hna (hI.x3 t hacc hnf)
+  · intro y hy h1 h2 heq
+    have := (hI.yi y hy).active h1 h2
+    rw [heq] at this
+    exact hna _ this
+  · exact hnr
+
+theorem waitsOk_of_wait {g : Graph} {tr : List Ev} {t k : Nat}
+    (h : ∀ j, j < k → ∀ w, (g.waits t)[j]? = some w → Ev.done w true ∈ tr)
+    (hk : (g.waits t)[k]? = none) : waitsOk g tr t := by
+  intro w hw
+  obtain ⟨j, hj, hjw⟩ := List.getElem_of_mem hw
+  have hlen : (g.waits t).length ≤ k := by
+    rcases Nat.lt_or_ge k (g.waits t).length with h1 | h1
+    · rw [List.getElem?_eq_getElem h1] at hk; cases hk
+    · exact h1
+  exact h j (by omega) w (by rw [List.getElem?_eq_getElem hj, hjw])
+
+/-- T1: the wait list is exhausted, the body starts -/
+theorem inv_T1 {g : Graph} {s : St} (hI : Inv g s) {t k : Nat} (hpc : s.pc t = .waiting k)
+    (hk : (g.waits t)[k]? = none) : Inv g { s with pc := upd s.pc t (.run 0) } := by
+  have T := hI.ti t
+  unfold TIs at T; rw [hpc] at T
+  apply inv_move_na hI (t := t) (q := .run 0) (es := [])
+  case hpc => rfl
+  case htr => simp
+  case htg => rfl
+  case hmp => rfl
+  case hlen => simp
+  case hacc => rw [hpc]; rfl
+  case hnf => rw [hpc]; simp
+  case hna => rw [hpc]; simp
+  case hqacc => rfl
+  case hfd => exact freshDone_nil _
+  case hev => simp
+  case hce => exact fun _ h => h
+  case hi2 => exact fun _ h => Or.inl h
+  case hok => simp
+  case hnoacc => simp
+  case hnr => simp
+  case hi3 => exact fun _ h => Or.inl h
+  case hfin3 => intro h; cases h
+  case hq => exact {
+    range := fun _ => T.range (by simp)
+    once := fun _ => T.once (by simp)
+    sub := fun _ => T.sub rfl
+    accEv := fun _ hn => T.accEv rfl hn
+    accEv' := fun _ => rfl
+    cmdB := by intro m hm j hj; simp [issued] at hm; subst hm; exact T.cmdB 0 rfl j hj
+    retB := by intro m hm j b hj; simp [returned] at hm; subst hm; exact T.retB 0 rfl j b hj
+    okB := by
+      intro m hm; simp [okUpTo] at hm; subst hm
+      exact ⟨waitsOk_of_wait (T.wait k rfl) hk, fun j hj => absurd hj (Nat.not_lt_zero _)⟩
+    wait := by intro k hk; cases hk
+    inc := by intro i hi; cases hi
+    aft := by intro i hi; cases hi
+    runB := by intro i hi; cases hi; exact Nat.zero_le _
+    clo := by intro f hf; cases hf
+    nodone := fun _ => T.nodone (by simp)
+    fin := by intro hf; cases hf
+    df := T.df
+    duniq := T.duniq }
+
+/-- a finished task whose context has no error closed without error -/
+theorem done_true_of_finished {g : Graph} {s : St} (hI : Inv g s) {w : Nat} (hf : s.pc w = .finished)
+    (hc : s.cerr (g.ctx w) = false) : Ev.done w true ∈ s.tr := by
+  have W := hI.ti w
+  unfold TIs at W
+  rcases (W.fin hf).1 with h | h
+  · exact h
+  · have := W.df h; rw [hc] at this; cases this
+
+theorem mem_snoc_ne {tr : List Ev} {e e' : Ev} (hne : e' ≠ e) : e' ∈ tr ++ [e] ↔ e' ∈ tr := by
+  simp [List.mem_append, hne]
+
+/-- T3: one more entry of the wait list has finished without error -/
+theorem inv_T3 {g : Graph} {s : St} (hI : Inv g s) {t k w : Nat} (hpc : s.pc t = .waiting k)
+    (hk : (g.waits t)[k]? = some w) (hwf : s.pc w = .finished) (hwc : s.cerr (g.ctx w) = false) :
+    Inv g { s with pc := upd s.pc t (.waiting (k + 1)) } := by
+  have T := hI.ti t
+  unfold TIs at T; rw [hpc] at T
+  apply inv_move_na hI (t := t) (q := .waiting (k + 1)) (es := [])
+  case hpc => rfl
+  case htr => simp
+  case htg => rfl
+  case hmp => rfl
+  case hlen => simp
+  case hacc => rw [hpc]; rfl
+  case hnf => rw [hpc]; simp
+  case hna => rw [hpc]; simp
+  case hqacc => rfl
+  case hfd => exact freshDone_nil _
+  case hev => simp
+  case hce => exact fun _ h => h
+  case hi2 => exact fun _ h => Or.inl h
+  case hok => simp
+  case hnoacc => simp
+  case hnr => simp
+  case hi3 => exact fun _ h => Or.inl h
+  case hfin3 => intro h; cases h
+  case hq => exact {
+    range := fun _ => T.range (by simp)
+    once := fun _ => T.once (by simp)
+    sub := fun _ => T.sub rfl
+    accEv := fun _ hn => T.accEv rfl hn
+    accEv' := fun _ => rfl
+    cmdB := by intro m hm j hj; simp [issued] at hm; subst hm; exact T.cmdB 0 rfl j hj
+    retB := by intro m hm j b hj; simp [returned] at hm; subst hm; exact T.retB 0 rfl j b hj
+    okB := by intro m hm; simp [okUpTo] at hm
+    wait := by
+      intro k' hk' j hj w' hw'
+      cases hk'
+      rcases Nat.lt_or_ge j k with h1 | h1
+      · exact T.wait k rfl j h1 w' hw'
+      · have : j = k := by omega
+        subst this
+        rw [hk] at hw'; cases hw'
+        exact done_true_of_finished hI hwf hwc
+    inc := by intro i hi; cases hi
+    aft := by intro i hi; cases hi
+    runB := by intro i hi; cases hi
+    clo := by intro f hf; cases hf
+    nodone := fun _ => T.nodone (by simp)
+    fin := by intro hf; cases hf
+    df := T.df
+    duniq := T.duniq }
+
+/-- T2: an entry of the wait list finished with an error: the task fails without running its body -/
+theorem inv_T2 {g : Graph} {s : St} (hw : WF g) (hI : Inv g s) {t k w : Nat} (hpc : s.pc t = .waiting k)
+    (hk : (g.waits t)[k]? = some w) (hwf : s.pc w = .finished) (hwc : s.cerr (g.ctx w) = true) :
+    Inv g { s with pc := upd s.pc t (.closing false), cerr := upd s.cerr (g.ctx t) true } := by
+  have T := hI.ti t
+  unfold TIs at T; rw [hpc] at T
+  have ht : t < g.n := T.range (by simp)
+  have hctx : g.ctx w = g.ctx t := by
+    have W := hI.ti w
+    unfold TIs at W
+    have hwn : w < g.n := W.range (by rw [hwf]; simp)
+    rcases hw.wait_cases ht (List.mem_of_getElem? hk) with h | h
+    · omega
+    · exact h.2.2
+  apply inv_move_na hI (t := t) (q := .closing false) (es := [])
+  case hpc => rfl
+  case htr => simp
+  case htg => rfl
+  case hmp => rfl
+  case hlen => simp
+  case hacc => rw [hpc]; rfl
+  case hnf => rw [hpc]; simp
+  case hna => rw [hpc]; simp
+  case hqacc => rfl
+  case hfd => exact freshDone_nil _
+  case hev => simp
+  case hce => intro X h; simp only [upd_apply]; split <;> simp [h]
+  case hi2 =>
+    intro X h
+    simp only [upd_apply] at h
+    split at h
+    · rename_i hX
+      subst hX
+      rw [← hctx]
+      simp only [List.append_nil]
+      exact Or.inr (hI.i2 _ hwc)
+    · exact Or.inl h
+  case hok => simp
+  case hnoacc => simp
+  case hnr => simp
+  case hi3 => 
+    intro X h
+    change upd s.cerr (g.ctx t) true X = true at h
+    simp only [upd_apply] at h
+    split at h
+    · rename_i hX; exact Or.inr ⟨hX, by simp⟩
+    · exact Or.inl h
+  case hfin3 => intro h; cases h
+  case hq => exact {
+    range := fun _ => ht
+    once := fun _ => T.once (by simp)
+    sub := fun _ => T.sub rfl
+    accEv := fun _ hn => T.accEv rfl hn
+    accEv' := fun _ => rfl
+    cmdB := by intro m hm; simp [issued] at hm
+    retB := by intro m hm; simp [returned] at hm
+    okB := by intro m hm; simp [okUpTo] at hm
+    wait := by intro k hk; cases hk
+    inc := by intro i hi; cases hi
+    aft := by intro i hi; cases hi
+    runB := by intro i hi; cases hi
+    clo := by
+      intro f _
+      refine ⟨fun i _ hc => absurd (T.cmdB 0 rfl i hc) (Nat.not_lt_zero _), fun _ => by simp [upd_apply]⟩
+    nodone := fun _ => T.nodone (by simp)
+    fin := by intro hf; cases hf
+    df := fun _ => by simp [upd_apply]
+    duniq := T.duniq }
+
+/-! ### Events of a task do not touch other tasks unless the command is a submission -/
+
+theorem ret_not_touch {g : Graph} (hw : WF g) {t i u : Nat} {b : Bool} (hne : u ≠ t)
+    (hs : ∀ c, g.cmdAt t i ≠ some (.spawn c)) (hy : ∀ y, g.cmdAt t i ≠ some (.try_ y)) :
+    ¬ touches g u (.ret t i b) := by
+  intro h
+  unfold touches at h
+  rcases h with h | h | ⟨y, h1, h2, h3⟩
+  · exact hne h.symm
+  · rcases Nat.lt_or_ge u g.n with hu | hu
+    · exact hs u (hw.child hu h).1
+    · rw [role_out hu] at h; cases h
+  · rcases Nat.lt_or_ge u g.n with hu | hu
+    · have := (hw.tryOwner (hw.tbody hu h1).1).2.1
+      rw [h2, h3] at this
+      exact hy y this
+    · rw [role_out hu] at h1; cases h1
+
+theorem ret_not_try {g : Graph} (hw : WF g) {t i y : Nat} (hy : y < g.tries.length)
+    (hc : ∀ y, g.cmdAt t i ≠ some (.try_ y)) {b : Bool} :
+    Ev.ret (g.tryd y).owner (g.tryd y).idx true ∉ [Ev.ret t i b] := by
+  intro h
+  simp only [List.mem_singleton, Ev.ret.injEq] at h
+  have := (hw.tryOwner hy).2.1
+  rw [h.1, h.2.1] at this
+  exact hc y this
+
+/-- T4: the next command is entered -/
+theorem inv_T4 {g : Graph} {s : St} (hI : Inv g s) {t i : Nat} (hpc : s.pc t = .run i)
+    (hi : i < (g.body t).length) :
+    Inv g (emit { s with pc := upd s.pc t (.inCmd i) } (.cmd t i)) := by
+  have T := hI.ti t
+  unfold TIs at T; rw [hpc] at T
+  have hfd : FreshDone s.tr [Ev.cmd t i] := by intro u b h; simp at h
+  apply inv_move_na hI (t := t) (q := .inCmd i) (es := [.cmd t i])
+  case hpc => rfl
+  case htr => rfl
+  case htg => rfl
+  case hmp => rfl
+  case hlen => simp
+  case hacc => rw [hpc]; rfl
+  case hnf => rw [hpc]; simp
+  case hna => rw [hpc]; simp
+  case hqacc => rfl
+  case hfd => exact hfd
+  case hev => intro u hu e he; simp at he; subst he; simp [touches]; exact fun h => hu h.symm
+  case hce => exact fun _ h => h
+  case hi2 => exact fun _ h => Or.inl h
+  case hok =>
+    intro e he; simp at he; subst he
+    refine ⟨hi, fun h => Nat.lt_irrefl _ (T.cmdB i rfl i h), T.nodone (by simp), ?_⟩
+    split
+    · exact ⟨T.sub rfl, (T.okB i rfl).1⟩
+    · exact (T.okB i rfl).2 (i - 1) (by omega)
+  case hnoacc => simp
+  case hnr => intro y hy h; simp at h
+  case hi3 => exact fun _ h => Or.inl h
+  case hfin3 => intro h; cases h
+  case hq =>
+    show TI g t (.inCmd i) (s.tr ++ [.cmd t i]) _ _
+    exact {
+    range := fun _ => T.range (by simp)
+    once := fun _ => created_mono _ (Nat.le_refl _) (T.once (by simp))
+    sub := fun _ => submitted_mono _ (T.sub rfl)
+    accEv := fun _ hn => acceptedEv_mono _ (T.accEv rfl hn)
+    accEv' := fun _ => rfl
+    cmdB := by
+      intro m hm j hj; simp [issued] at hm; subst hm
+      rcases List.mem_append.mp hj with hj | hj
+      · exact Nat.lt_succ_of_lt (T.cmdB i rfl j hj)
+      · simp at hj; omega
+    retB := by
+      intro m hm j b hj; simp [returned] at hm; subst hm
+      rw [mem_snoc_ne (by simp)] at hj
+      exact T.retB i rfl j b hj
+    okB := by
+      intro m hm; simp [okUpTo] at hm; subst hm
+      have := T.okB i rfl
+      exact ⟨waitsOk_mono _ this.1, fun j hj => cmdDoneOk_mono _ hfd (this.2 j hj)⟩
+    wait := by intro k hk; cases hk
+    inc := by intro i' hi'; cases hi'; exact ⟨hi, by simp⟩
+    aft := by intro i hi; cases hi
+    runB := by intro i hi; cases hi
+    clo := by intro f hf; cases hf
+    nodone := by
+      intro _ h; apply T.nodone (by simp)
+      unfold hasDone at *
+      rw [mem_snoc_ne (by simp), mem_snoc_ne (by simp)] at h; exact h
+    fin := by intro hf; cases hf
+    df := by intro h; rw [mem_snoc_ne (by simp)] at h; exact T.df h
+    duniq := by intro h; rw [mem_snoc_ne (by simp), mem_snoc_ne (by simp)] at h; exact T.duniq h }
+
+/-- T5: end of script -/
+theorem inv_T5 {g : Graph} {s : St} (hI : Inv g s) {t i : Nat} (hpc : s.pc t = .run i)
+    (hi : ¬ i < (g.body t).length) :
+    Inv g { s with pc := upd s.pc t (.closing true) } := by
+  have T := hI.ti t
+  unfold TIs at T; rw [hpc] at T
+  have hil : i = (g.body t).length := by have := T.runB i rfl; omega
+  apply inv_move_na hI (t := t) (q := .closing true) (es := [])
+  case hpc => rfl
+  case htr => simp
+  case htg => rfl
+  case hmp => rfl
+  case hlen => simp
+  case hacc => rw [hpc]; rfl
+  case hnf => rw [hpc]; simp
+  case hna => rw [hpc]; simp
+  case hqacc => rfl
+  case hfd => exact freshDone_nil _
+  case hev => simp
+  case hce => exact fun _ h => h
+  case hi2 => exact fun _ h => Or.inl h
+  case hok => simp
+  case hnoacc => simp
+  case hnr => simp
+  case hi3 => exact fun _ h => Or.inl h
+  case hfin3 => intro h; cases h
+  case hq => exact {
+    range := fun _ => T.range (by simp)
+    once := fun _ => T.once (by simp)
+    sub := fun _ => T.sub rfl
+    accEv := fun _ hn => T.accEv rfl hn
+    accEv' := fun _ => rfl
+    cmdB := by intro m hm; simp [issued] at hm
+    retB := by intro m hm; simp [returned] at hm
+    okB := by intro m hm; simp [okUpTo] at hm; subst hm; rw [← hil]; exact T.okB i rfl
+    wait := by intro k hk; cases hk
+    inc := by intro i hi; cases hi
+    aft := by intro i hi; cases hi
+    runB := by intro i hi; cases hi
+    clo := by
+      intro f _
+      refine ⟨fun j hj _ => Or.inl ((T.okB i rfl).2 j (by omega)).1, fun h => ?_⟩
+      rename_i hf; cases hf; cases h
+    nodone := fun _ => T.nodone (by simp)
+    fin := by intro hf; cases hf
+    df := T.df
+    duniq := T.duniq }
+
+/-- S1: RunLoop takes the `<-Done()` branch -/
+theorem inv_S1 {g : Graph} {s : St} (hI : Inv g s) {t i : Nat} (hpc : s.pc t = .run i)
+    (hc : s.cerr (g.ctx t) = true) :
+    Inv g { s with pc := upd s.pc t (.closing false) } := by
+  have T := hI.ti t
+  unfold TIs at T; rw [hpc] at T
+  apply inv_move_na hI (t := t) (q := .closing false) (es := [])
+  case hpc => rfl
+  case htr => simp
+  case htg => rfl
+  case hmp => rfl
+  case hlen => simp
+  case hacc => rw [hpc]; rfl
+  case hnf => rw [hpc]; simp
+  case hna => rw [hpc]; simp
+  case hqacc => rfl
+  case hfd => exact freshDone_nil _
+  case hev => simp
+  case hce => exact fun _ h => h
+  case hi2 => exact fun _ h => Or.inl h
+  case hok => simp
+  case hnoacc => simp
+  case hnr => simp
+  case hi3 => exact fun _ h => Or.inl h
+  case hfin3 => intro h; cases h
+  case hq => exact {
+    range := fun _ => T.range (by simp)
+    once := fun _ => T.once (by simp)
+    sub := fun _ => T.sub rfl
+    accEv := fun _ hn => T.accEv rfl hn
+    accEv' := fun _ => rfl
+    cmdB := by intro m hm; simp [issued] at hm
+    retB := by intro m hm; simp [returned] at hm
+    okB := by intro m hm; simp [okUpTo] at hm
+    wait := by intro k hk; cases hk
+    inc := by intro i hi; cases hi
+    aft := by intro i hi; cases hi
+    runB := by intro i hi; cases hi
+    clo := by
+      intro f _
+      exact ⟨fun j _ hc => Or.inl ((T.okB i rfl).2 j (T.cmdB i rfl j hc)).1, fun _ => hc⟩
+    nodone := fun _ => T.nodone (by simp)
+    fin := by intro hf; cases hf
+    df := T.df
+    duniq := T.duniq }
+
+/-- T6: a probe command returns nil -/
+theorem inv_T6 {g : Graph} {s : St} (hw : WF g) (hI : Inv g s) {t i : Nat} (hpc : s.pc t = .inCmd i)
+    (hcmd : g.cmdAt t i = some .probe) :
+    Inv g (emit { s with pc := upd s.pc t (.afterCmd i) } (.ret t i true)) := by
+  have T := hI.ti t
+  unfold TIs at T; rw [hpc] at T
+  have hfd : FreshDone s.tr [Ev.ret t i true] := by intro u b h; simp at h
+  apply inv_move_na hI (t := t) (q := .afterCmd i) (es := [.ret t i true])
+  case hpc => rfl
+  case htr => rfl
+  case htg => rfl
+  case hmp => rfl
+  case hlen => simp
+  case hacc => rw [hpc]; rfl
+  case hnf => rw [hpc]; simp
+  case hna => rw [hpc]; simp
+  case hqacc => rfl
+  case hfd => exact hfd
+  case hev =>
+    intro u hu e he; simp at he; subst he
+    exact ret_not_touch hw hu (by simp [hcmd]) (by simp [hcmd])
+  case hce => exact fun _ h => h
+  case hi2 => exact fun _ h => Or.inl h
+  case hok =>
+    intro e he; simp at he; subst he
+    refine ⟨(T.inc i rfl).2, ?_, T.nodone (by simp), ?_⟩
+    · intro h; rcases h with h | h <;> exact Nat.lt_irrefl _ (T.retB i rfl i _ h)
+    · simp [retOk, hcmd]
+  case hnoacc => simp
+  case hnr => intro y hy h; exact absurd h (ret_not_try hw hy (by simp [hcmd]))
+  case hi3 => exact fun _ h => Or.inl h
+  case hfin3 => intro h; cases h
+  case hq =>
+    show TI g t (.afterCmd i) (s.tr ++ [.ret t i true]) _ _
+    exact {
+    range := fun _ => T.range (by simp)
+    once := fun _ => created_mono _ (Nat.le_refl _) (T.once (by simp))
+    sub := fun _ => submitted_mono _ (T.sub rfl)
+    accEv := fun _ hn => acceptedEv_mono _ (T.accEv rfl hn)
+    accEv' := fun _ => rfl
+    cmdB := by
+      intro m hm j hj; simp [issued] at hm; subst hm
+      rw [mem_snoc_ne (by simp)] at hj
+      exact T.cmdB (i + 1) rfl j hj
+    retB := by
+      intro m hm j b hj; simp [returned] at hm; subst hm
+      rcases List.mem_append.mp hj with hj | hj
+      · exact Nat.lt_succ_of_lt (T.retB i rfl j b hj)
+      · simp at hj; omega
+    okB := by
+      intro m hm; simp [okUpTo] at hm; subst hm
+      have := T.okB i rfl
+      exact ⟨waitsOk_mono _ this.1, fun j hj => cmdDoneOk_mono _ hfd (this.2 j hj)⟩
+    wait := by intro k hk; cases hk
+    inc := by intro i hi; cases hi
+    aft := by intro i' hi'; cases hi'; exact ⟨(T.inc i rfl).1, by simp⟩
+    runB := by intro i hi; cases hi
+    clo := by intro f hf; cases hf
+    nodone := by
+      intro _ h; apply T.nodone (by simp)
+      unfold hasDone at *
+      rw [mem_snoc_ne (by simp), mem_snoc_ne (by simp)] at h; exact h
+    fin := by intro hf; cases hf
+    df := by intro h; rw [mem_snoc_ne (by simp)] at h; exact T.df h
+    duniq := by intro h; rw [mem_snoc_ne (by simp), mem_snoc_ne (by simp)] at h; exact T.duniq h }
+
+theorem causeIn_self {g : Graph} {tr : List Ev} {t i : Nat} :
+    causeIn g (g.ctx t) (tr ++ [Ev.ret t i false]) :=
+  ⟨Ev.ret t i false, by simp, by simp [isCause]⟩
+
+/-- T7: a failing command returns its error; RunLoop records it and returns -/
+theorem inv_T7 {g : Graph} {s : St} (hw : WF g) (hI : Inv g s) {t i : Nat} (hpc : s.pc t = .inCmd i)
+    (hcmd : g.cmdAt t i = some .fail) :
+    Inv g (emit { s with pc := upd s.pc t (.closing false), cerr := upd s.cerr (g.ctx t) true }
+      (.ret t i false)) := by
+  have T := hI.ti t
+  unfold TIs at T; rw [hpc] at T
+  have hfd : FreshDone s.tr [Ev.ret t i false] := by intro u b h; simp at h
+  apply inv_move_na hI (t := t) (q := .closing false) (es := [.ret t i false])
+  case hpc => rfl
+  case htr => rfl
+  case htg => rfl
+  case hmp => rfl
+  case hlen => simp
+  case hacc => rw [hpc]; rfl
+  case hnf => rw [hpc]; simp
+  case hna => rw [hpc]; simp
+  case hqacc => rfl
+  case hfd => exact hfd
+  case hev =>
+    intro u hu e he; simp at he; subst he
+    exact ret_not_touch hw hu (by simp [hcmd]) (by simp [hcmd])
+  case hce => intro X h; show upd s.cerr (g.ctx t) true X = true; simp only [upd_apply]; split <;> simp [h]
+  case hi2 =>
+    intro X h
+    change upd s.cerr (g.ctx t) true X = true at h
+    simp only [upd_apply] at h
+    split at h
+    · rename_i hX; subst hX; exact Or.inr (Or.inl causeIn_self)
+    · exact Or.inl h
+  case hok =>
+    intro e he; simp at he; subst he
+    refine ⟨(T.inc i rfl).2, ?_, T.nodone (by simp), ?_⟩
+    · intro h; rcases h with h | h <;> exact Nat.lt_irrefl _ (T.retB i rfl i _ h)
+    · simp [retOk, hcmd]
+  case hnoacc => simp
+  case hnr => intro y hy h; simp at h
+  case hi3 => 
+    intro X h
+    change upd s.cerr (g.ctx t) true X = true at h
+    simp only [upd_apply] at h
+    split at h
+    · rename_i hX; exact Or.inr ⟨hX, by simp⟩
+    · exact Or.inl h
+  case hfin3 => intro h; cases h
+  case hq =>
+    show TI g t (.closing false) (s.tr ++ [.ret t i false]) (upd s.cerr (g.ctx t) true (g.ctx t)) _
+    exact {
+    range := fun _ => T.range (by simp)
+    once := fun _ => created_mono _ (Nat.le_refl _) (T.once (by simp))
+    sub := fun _ => submitted_mono _ (T.sub rfl)
+    accEv := fun _ hn => acceptedEv_mono _ (T.accEv rfl hn)
+    accEv' := fun _ => rfl
+    cmdB := by intro m hm; simp [issued] at hm
+    retB := by intro m hm; simp [returned] at hm
+    okB := by intro m hm; simp [okUpTo] at hm
+    wait := by intro k hk; cases hk
+    inc := by intro i hi; cases hi
+    aft := by intro i hi; cases hi
+    runB := by intro i hi; cases hi
+    clo := by
+      intro f _
+      refine ⟨fun j _ hc => ?_, fun _ => by simp⟩
+      rw [mem_snoc_ne (by simp)] at hc
+      have hj := T.cmdB (i + 1) rfl j hc
+      rcases Nat.lt_or_ge j i with h1 | h1
+      · exact hasRet_mono _ (Or.inl ((T.okB i rfl).2 j h1).1)
+      · have : j = i := by omega
+        subst this; exact Or.inr (by simp)
+    nodone := by
+      intro _ h; apply T.nodone (by simp)
+      unfold hasDone at *
+      rw [mem_snoc_ne (by simp), mem_snoc_ne (by simp)] at h; exact h
+    fin := by intro hf; cases hf
+    df := by intro _; simp
+    duniq := by intro h; rw [mem_snoc_ne (by simp), mem_snoc_ne (by simp)] at h; exact T.duniq h }
+
+theorem cmd_of_ret {g : Graph} {tr : List Ev} (h : TraceOk g tr) {t i : Nat} {b : Bool}
+    (hr : Ev.ret t i b ∈ tr) : Ev.cmd t i ∈ tr := by
+  obtain ⟨pre, post, hs, hok⟩ := traceOk_mem h hr
+  rw [hs]; exact List.mem_append_left _ hok.1
+
+theorem finished_of_not_parentAt {g : Graph} {s : St} (hI : Inv g s) {u : Nat}
+    (ha : (s.pc u).accepted = true) (hp : ¬ parentAt g s u) : s.pc u = .finished := by
+  rcases Classical.em (s.pc u = .finished) with h | h
+  · exact h
+  · exact absurd (hI.x3 u ha h) hp
+
+/-- a task that has issued a command is accepted -/
+theorem accepted_of_cmd {g : Graph} {s : St} (hI : Inv g s) {u j : Nat} (hc : Ev.cmd u j ∈ s.tr) :
+    (s.pc u).accepted = true := by
+  have U := hI.ti u
+  unfold TIs at U
+  cases hpc : s.pc u <;> simp [PC.accepted]
+  · rw [hpc] at U; exact absurd (U.cmdB 0 rfl j hc) (Nat.not_lt_zero _)
+  · rw [hpc] at U; exact absurd (U.cmdB 0 rfl j hc) (Nat.not_lt_zero _)
+
+theorem mem_handlers {g : Graph} {y h : Nat} :
+    h ∈ g.handlers y ↔ (g.tryd y).fin = some h ∨ (g.tryd y).fail = some h ∨ (g.tryd y).succ = some h := by
+  unfold Graph.handlers
+  simp only [List.mem_append, Option.mem_toList, or_assoc]
+
+/-- facts about a handler `h` of try `y` -/
+theorem handler_facts {g : Graph} (hw : WF g) {y h : Nat} (hy : y < g.tries.length) (hh : h ∈ g.handlers y) :
+    h < g.n ∧ g.ctx h = g.ctx (g.tryd y).owner ∧
+    parentOf g h = some ((g.tryd y).owner, (g.tryd y).idx) := by
+  obtain ⟨h1, h2, h3⟩ := hw.tryHandlers hy
+  rcases mem_handlers.mp hh with hx | hx | hx
+  · obtain ⟨a, b⟩ := h3 h hx
+    refine ⟨a, (hw.hfin a b).2.2.1, ?_⟩
+    unfold parentOf; rw [b]
+  · obtain ⟨a, b⟩ := h2 h hx
+    refine ⟨a, (hw.hfail a b).2.2.1, ?_⟩
+    unfold parentOf; rw [b]
+  · obtain ⟨a, b⟩ := h1 h hx
+    refine ⟨a, (hw.hsucc a b).2.2.1, ?_⟩
+    unfold parentOf; rw [b]
+
+theorem not_parentAt {g : Graph} {s : St} {u p i : Nat} (hp : parentOf g u = some (p, i))
+    (hn : s.pc p ≠ .afterCmd i) : ¬ parentAt g s u := fun h => hn (h p i hp)
+
+/-- what a task that is no longer blocked at command `i` knows about a try block it started there -/
+theorem try_closed {g : Graph} {s : St} (hw : WF g) (hI : Inv g s) {t i y : Nat}
+    (hcmd : g.cmdAt t i = some (.try_ y)) (hret : Ev.ret t i true ∈ s.tr) (hna : s.pc t ≠ .afterCmd i) :
+    hasDone s.tr (g.tryd y).body ∧
+    (∀ h ∈ g.handlers y, Ev.cmd h 0 ∈ s.tr → hasDone s.tr h) ∧
+    (∀ h ∈ selected g s.tr y, Ev.cmd h 0 ∈ s.tr ∨ causeFor g s.tr t) := by
+  have ht : t < g.n := by
+    rcases Nat.lt_or_ge t g.n with h | h
+    · exact h
+    · have := cmdAt_lt hcmd; rw [body_out h] at this; simp at this
+  obtain ⟨hy, ho, hi⟩ := hw.tryc ht hcmd
+  obtain ⟨_, _, hbn, hbr⟩ := hw.tryOwner hy
+  have hown : ¬ (s.pc (g.tryd y).owner = .afterCmd (g.tryd y).idx) := by rw [ho, hi]; exact hna
+  -- the body task
+  have B := hI.ti (g.tryd y).body
+  unfold TIs at B
+  have hbacc : (s.pc (g.tryd y).body).accepted = true := by
+    apply B.accEv'
+    unfold acceptedEv; rw [hbr]; simp only; rw [ho, hi]; exact hret
+  have hbfin : s.pc (g.tryd y).body = .finished := by
+    apply finished_of_not_parentAt hI hbacc
+    exact not_parentAt (by unfold parentOf; rw [hbr]) hown
+  have hbd := (B.fin hbfin).1
+  -- a handler that is accepted has finished
+  have hfin : ∀ h ∈ g.handlers y, (s.pc h).accepted = true → s.pc h = .finished := by
+    intro h hh ha
+    apply finished_of_not_parentAt hI ha
+    exact not_parentAt (handler_facts hw hy hh).2.2 hown
+  refine ⟨hbd, ?_, ?_⟩
+  · intro h hh hc
+    have := hfin h hh (accepted_of_cmd hI hc)
+    exact ((hI.ti h).fin this).1
+  · -- the try goroutine is done
+    have Y := hI.yi y hy
+    have hst : s.tg y ≠ .idle := Y.started' (by rw [ho, hi]; exact hret)
+    have hdn : s.tg y = .done := by
+      rcases Classical.em (s.tg y = .done) with h | h
+      · exact h
+      · exact absurd (Y.active hst h) hown
+    have hrank : (s.tg y).rank = 5 := by rw [hdn]; rfl
+    intro h hsel
+    have hacc_or : (s.pc h).accepted = true ∨ s.cerr (g.ctx (g.tryd y).owner) = true := by
+      unfold selected at hsel
+      simp only [List.mem_append, Option.mem_toList] at hsel
+      rcases hsel with (h1 | h1) | h1
+      · exact Y.finAcc (by omega) h h1
+      · split at h1
+        · rename_i hd; exact Y.failAcc (by omega) hd h (by simpa using h1)
+        · simp at h1
+      · split at h1
+        · rename_i hd; exact Y.succAcc (by omega) hd h (by simpa using h1)
+        · simp at h1
+    have hhand : h ∈ g.handlers y := by
+      unfold selected at hsel
+      simp only [List.mem_append, Option.mem_toList] at hsel
+      apply mem_handlers.mpr
+      rcases hsel with (h1 | h1) | h1
+      · exact Or.inl h1
+      · split at h1
+        · exact Or.inr (Or.inl (by simpa using h1))
+        · simp at h1
+      · split at h1
+        · exact Or.inr (Or.inr (by simpa using h1))
+        · simp at h1
+    have hcause : s.cerr (g.ctx (g.tryd y).owner) = true → causeFor g s.tr t := by
+      intro hc; rw [ho] at hc; exact hI.i2 _ hc
+    rcases hacc_or with ha | hc
+    · have hf := hfin h hhand ha
+      rcases ((hI.ti h).fin hf).2 with h1 | h1
+      · exact Or.inl h1
+      · rw [(handler_facts hw hy hhand).2.1] at h1
+        exact Or.inr (hcause h1)
+    · exact Or.inr (hcause hc)
+
+theorem spawn_closed {g : Graph} {s : St} (hw : WF g) (hI : Inv g s) {t i c : Nat}
+    (hcmd : g.cmdAt t i = some (.spawn c)) (hret : Ev.ret t i true ∈ s.tr) (hna : s.pc t ≠ .afterCmd i) :
+    hasDone s.tr c := by
+  have ht : t < g.n := by
+    rcases Nat.lt_or_ge t g.n with h | h
+    · exact h
+    · have := cmdAt_lt hcmd; rw [body_out h] at this; simp at this
+  obtain ⟨hc, hr⟩ := hw.spawn ht hcmd
+  have C := hI.ti c
+  unfold TIs at C
+  have hacc : (s.pc c).accepted = true := by
+    apply C.accEv'; unfold acceptedEv; rw [hr]; exact hret
+  have : s.pc c = .finished := by
+    apply finished_of_not_parentAt hI hacc
+    exact not_parentAt (by unfold parentOf; rw [hr]) hna
+  exact (C.fin this).1
+
+/-- T14: the deferred closes run: `done` event, latch released, task scope closed -/
+theorem inv_T14 {g : Graph} {s : St} (hw : WF g) (hI : Inv g s) {t : Nat} {f : Bool}
+    (hpc : s.pc t = .closing f) :
+    Inv g (emit { s with pc := upd s.pc t .finished } (.done t (!s.cerr (g.ctx t)))) := by
+  have T := hI.ti t
+  unfold TIs at T; rw [hpc] at T
+  have ht : t < g.n := T.range (by simp)
+  have hnd : ¬ hasDone s.tr t := T.nodone (by simp)
+  have hfd : FreshDone s.tr [Ev.done t (!s.cerr (g.ctx t))] := by
+    intro u b h; simp at h; rw [h.1]; exact hnd
+  have hna : ∀ i, s.pc t ≠ .afterCmd i := by rw [hpc]; simp
+  apply inv_move_na hI (t := t) (q := .finished) (es := [.done t (!s.cerr (g.ctx t))])
+  case hpc => rfl
+  case htr => rfl
+  case htg => rfl
+  case hmp => rfl
+  case hlen => simp
+  case hacc => rw [hpc]; rfl
+  case hnf => rw [hpc]; simp
+  case hna => exact hna
+  case hqacc => rfl
+  case hfd => exact hfd
+  case hev => intro u hu e he; simp at he; subst he; simp [touches]; exact fun h => hu h.symm
+  case hce => exact fun _ h => h
+  case hi2 => exact fun _ h => Or.inl h
+  case hok =>
+    intro e he; simp at he; subst he
+    refine ⟨hnd, ?_, ?_⟩
+    · intro i hi hc
+      rw [List.mem_range] at hi
+      refine ⟨(T.clo f rfl).1 i hi hc, fun hret => ?_⟩
+      split
+      · rename_i c hcmd; exact spawn_closed hw hI hcmd hret (hna i)
+      · rename_i y hcmd; exact try_closed hw hI hcmd hret (hna i)
+      · trivial
+    · cases hce : s.cerr (g.ctx t)
+      · simp only [Bool.not_false, if_true]
+        have hf : f = true := by
+          cases f
+          · have := (T.clo false rfl).2 rfl; rw [hce] at this; cases this
+          · rfl
+        subst hf
+        have := T.okB _ rfl
+        exact ⟨this.1, fun i hi => this.2 i (List.mem_range.mp hi)⟩
+      · simp only [Bool.not_true]
+        exact hI.i2 _ hce
+  case hnoacc => simp
+  case hnr => intro y hy h; simp at h
+  case hi3 => exact fun _ h => Or.inl h
+  case hfin3 => 
+    intro _ hc
+    show Ev.done t false ∈ s.tr ++ [Ev.done t (!s.cerr (g.ctx t))]
+    rw [hc]; simp
+  case hq =>
+    show TI g t .finished (s.tr ++ [.done t (!s.cerr (g.ctx t))]) (s.cerr (g.ctx t)) _
+    exact {
+    range := fun _ => ht
+    once := fun _ => created_mono _ (Nat.le_refl _) (T.once (by simp))
+    sub := fun _ => submitted_mono _ (T.sub rfl)
+    accEv := fun _ hn => acceptedEv_mono _ (T.accEv rfl hn)
+    accEv' := fun _ => rfl
+    cmdB := by intro m hm; simp [issued] at hm
+    retB := by intro m hm; simp [returned] at hm
+    okB := by intro m hm; simp [okUpTo] at hm
+    wait := by intro k hk; cases hk
+    inc := by intro i hi; cases hi
+    aft := by intro i hi; cases hi
+    runB := by intro i hi; cases hi
+    clo := by intro f hf; cases hf
+    nodone := by intro h; exact absurd rfl h
+    fin := by
+      intro _
+      refine ⟨?_, ?_⟩
+      · unfold hasDone; cases (!s.cerr (g.ctx t)) <;> simp
+      · cases f
+        · exact Or.inr ((T.clo false rfl).2 rfl)
+        · have h0 : 0 < (g.body t).length := List.length_pos_iff.mpr (hw.body t ht)
+          have := ((T.okB _ rfl).2 0 h0).1
+          exact Or.inl (List.mem_append_left _ (cmd_of_ret hI.ok this))
+    df := by
+      intro h
+      rcases List.mem_append.mp h with h | h
+      · exact absurd (Or.inr h) hnd
+      · simp at h; cases hc : s.cerr (g.ctx t) <;> simp [hc] at h ⊢
+    duniq := by
+      intro h
+      have h1 := h.1; have h2 := h.2
+      rcases List.mem_append.mp h1 with h1 | h1
+      · exact hnd (Or.inl h1)
+      · rcases List.mem_append.mp h2 with h2 | h2
+        · exact hnd (Or.inr h2)
+        · simp at h1 h2; rw [h1] at h2; cases h2 }
+
+/-! ### Leaving a command: the guard `cmdChildrenFinished` -/
+
+theorem parentOf_lt {g : Graph} {u p i : Nat} (h : parentOf g u = some (p, i)) : u < g.n := by
+  rcases Nat.lt_or_ge u g.n with hu | hu
+  · exact hu
+  · unfold parentOf at h; rw [role_out hu] at h; cases h
+
+/-- everything submitted by command `i` of `t` has closed when the guard holds -/
+theorem guard_child {g : Graph} {s : St} (hw : WF g) {t i u : Nat} {c : Cmd}
+    (hp : parentOf g u = some (t, i)) (hcmd : g.cmdAt t i = some c)
+    (hg : cmdChildrenFinished g s c = true) (ha : (s.pc u).accepted = true) : s.pc u = .finished := by
+  have hu := parentOf_lt hp
+  unfold parentOf at hp
+  split at hp
+  · cases hp
+  · rename_i p' i' hr
+    simp only [Option.some.injEq, Prod.mk.injEq] at hp
+    have := (hw.child hu hr).1
+    rw [hp.1, hp.2, hcmd] at this
+    cases this
+    simpa [cmdChildrenFinished] using hg
+  · rename_i y hr
+    simp only [Option.some.injEq, Prod.mk.injEq] at hp
+    obtain ⟨hy, hb, _⟩ := hw.tbody hu hr
+    have := (hw.tryOwner hy).2.1
+    rw [hp.1, hp.2, hcmd] at this
+    cases this
+    simp only [cmdChildrenFinished, Bool.and_eq_true, beq_iff_eq] at hg
+    rw [← hb]; exact hg.1.2
+  · rename_i y hr
+    simp only [Option.some.injEq, Prod.mk.injEq] at hp
+    obtain ⟨hy, hb, _⟩ := hw.hsucc hu hr
+    have := (hw.tryOwner hy).2.1
+    rw [hp.1, hp.2, hcmd] at this
+    cases this
+    simp only [cmdChildrenFinished, Bool.and_eq_true, beq_iff_eq, List.all_eq_true, Bool.or_eq_true,
+      Bool.not_eq_true'] at hg
+    have hm : u ∈ g.handlers y := mem_handlers.mpr (by simp [hb])
+    rcases hg.2 u hm with h | h
+    · rw [h] at ha; cases ha
+    · exact h
+  · rename_i y hr
+    simp only [Option.some.injEq, Prod.mk.injEq] at hp
+    obtain ⟨hy, hb, _⟩ := hw.hfail hu hr
+    have := (hw.tryOwner hy).2.1
+    rw [hp.1, hp.2, hcmd] at this
+    cases this
+    simp only [cmdChildrenFinished, Bool.and_eq_true, beq_iff_eq, List.all_eq_true, Bool.or_eq_true,
+      Bool.not_eq_true'] at hg
+    have hm : u ∈ g.handlers y := mem_handlers.mpr (by simp [hb])
+    rcases hg.2 u hm with h | h
+    · rw [h] at ha; cases ha
+    · exact h
+  · rename_i y hr
+    simp only [Option.some.injEq, Prod.mk.injEq] at hp
+    obtain ⟨hy, hb, _⟩ := hw.hfin hu hr
+    have := (hw.tryOwner hy).2.1
+    rw [hp.1, hp.2, hcmd] at this
+    cases this
+    simp only [cmdChildrenFinished, Bool.and_eq_true, beq_iff_eq, List.all_eq_true, Bool.or_eq_true,
+      Bool.not_eq_true'] at hg
+    have hm : u ∈ g.handlers y := mem_handlers.mpr (by simp [hb])
+    rcases hg.2 u hm with h | h
+    · rw [h] at ha; cases ha
+    · exact h
+
+/-- `inv_move` for a task that leaves `afterCmd i` under the guard -/
+theorem inv_move_after {g : Graph} {s s' : St} (hw : WF g) (hI : Inv g s) {t i : Nat} {c : Cmd} {q : PC}
+    (hpc0 : s.pc t = .afterCmd i) (hcmd : g.cmdAt t i = some c)
+    (hg : cmdChildrenFinished g s c = true)
+    (hpc : s'.pc = upd s.pc t q) (htr : s'.tr = s.tr) (htg : s'.tg = s.tg) (hmp : s'.mp = s.mp)
+    (hcerr : s'.cerr = s.cerr) (hqacc : q.accepted = true) (hqnf : q ≠ .finished)
+    (hq : TI g t q s.tr (s.cerr (g.ctx t)) (s.tg (tryOf g t))) :
+    Inv g s' := by
+  have hself : ∀ u, parentOf g u = some (t, i) → (s.pc u).accepted = true → s.pc u = .finished :=
+    fun u hp ha => guard_child hw hp hcmd hg ha
+  have hparent : ∀ u, (s.pc u).accepted = true → s.pc u ≠ .finished → parentAt g s u → parentAt g s' u := by
+    intro u ha hf h p j hp
+    have hpj := h p j hp
+    by_cases hpt : p = t
+    · subst hpt
+      rw [hpc0] at hpj; cases hpj
+      exact absurd (hself u hp ha) hf
+    · rw [hpc, upd_other _ _ hpt]; exact hpj
+  apply inv_move hI (es := []) hpc (by simp [htr]) htg hmp (by simp) (by rw [hpc0]; rfl) hqacc
+  case hq => rw [htr, hcerr]; exact hq
+  case hfd => exact freshDone_nil _
+  case hev => simp
+  case hce => rw [hcerr]; exact fun _ h => h
+  case hi2 => rw [hcerr]; exact fun _ h => Or.inl h
+  case hok => simp
+  case hnoacc => simp
+  case hpar => intro u _ ha hf h; exact hparent u ha hf h
+  case hpart =>
+    intro _
+    have ha : (s.pc t).accepted = true := by rw [hpc0]; rfl
+    have hf : s.pc t ≠ .finished := by rw [hpc0]; simp
+    exact hparent t ha hf (hI.x3 t ha hf)
+  case hown =>
+    intro y hy h1 h2 heq
+    have hact := (hI.yi y hy).active h1 h2
+    rw [heq, hpc0] at hact
+    cases hact
+    have := (hw.tryOwner hy).2.1
+    rw [heq, hcmd] at this
+    cases this
+    simp only [cmdChildrenFinished, Bool.and_eq_true, beq_iff_eq] at hg
+    exact h2 hg.1.1
+  case hnr => simp
+  case hi3 => rw [hcerr]; exact fun _ h => Or.inl h
+  case hfin3 => intro h; exact absurd h hqnf
+
+/-- the command a task is blocked in has completed successfully, if the guard holds and its context is clean -/
+theorem cmdDoneOk_of_guard {g : Graph} {s : St} (hw : WF g) (hI : Inv g s) {t i : Nat} {c : Cmd}
+    (ht : t < g.n) (hcmd : g.cmdAt t i = some c) (hret : Ev.ret t i true ∈ s.tr)
+    (hg : cmdChildrenFinished g s c = true) (hce : s.cerr (g.ctx t) = false) :
+    cmdDoneOk g s.tr t i := by
+  refine ⟨hret, ?_⟩
+  rw [hcmd]
+  cases c with
+  | probe => trivial
+  | fail => trivial
+  | spawn c =>
+    simp only [cmdChildrenFinished, beq_iff_eq] at hg
+    have hc := hw.spawn ht hcmd
+    apply done_true_of_finished hI hg
+    rw [(hw.child hc.1 hc.2).2.2]; exact hce
+  | try_ y =>
+    simp only [cmdChildrenFinished, Bool.and_eq_true, beq_iff_eq, List.all_eq_true, Bool.or_eq_true,
+      Bool.not_eq_true'] at hg
+    obtain ⟨hy, ho, hi⟩ := hw.tryc ht hcmd
+    have Y := hI.yi y hy
+    refine ⟨((hI.ti _).fin hg.1.2).1, ?_⟩
+    intro h hsel
+    have hrank : (s.tg y).rank = 5 := by rw [hg.1.1]; rfl
+    have hacc_or : (s.pc h).accepted = true ∨ s.cerr (g.ctx (g.tryd y).owner) = true := by
+      unfold selected at hsel
+      simp only [List.mem_append, Option.mem_toList] at hsel
+      rcases hsel with (h1 | h1) | h1
+      · exact Y.finAcc (by omega) h h1
+      · split at h1
+        · rename_i hd; exact Y.failAcc (by omega) hd h (by simpa using h1)
+        · simp at h1
+      · split at h1
+        · rename_i hd; exact Y.succAcc (by omega) hd h (by simpa using h1)
+        · simp at h1
+    have hhand : h ∈ g.handlers y := by
+      unfold selected at hsel
+      simp only [List.mem_append, Option.mem_toList] at hsel
+      apply mem_handlers.mpr
+      rcases hsel with (h1 | h1) | h1
+      · exact Or.inl h1
+      · split at h1
+        · exact Or.inr (Or.inl (by simpa using h1))
+        · simp at h1
+      · split at h1
+        · exact Or.inr (Or.inr (by simpa using h1))
+        · simp at h1
+    rcases hacc_or with ha | hc
+    · have hf : s.pc h = .finished := by
+        rcases hg.2 h hhand with h1 | h1
+        · rw [h1] at ha; cases ha
+        · exact h1
+      apply done_true_of_finished hI hf
+      rw [(handler_facts hw hy hhand).2.1, ho]; exact hce
+    · rw [ho, hce] at hc; cases hc
+
+/-- T13: the command scope closed without error, next command -/
+theorem inv_T13 {g : Graph} {s : St} (hw : WF g) (hI : Inv g s) {t i : Nat} {c : Cmd}
+    (hpc : s.pc t = .afterCmd i) (hcmd : g.cmdAt t i = some c)
+    (hg : cmdChildrenFinished g s c = true) (hce : s.cerr (g.ctx t) = false) :
+    Inv g { s with pc := upd s.pc t (.run (i + 1)) } := by
+  have T := hI.ti t
+  unfold TIs at T; rw [hpc] at T
+  have ht : t < g.n := T.range (by simp)
+  refine inv_move_after (s' := { s with pc := upd s.pc t (.run (i + 1)) }) hw hI hpc hcmd hg
+    rfl rfl rfl rfl rfl rfl (by simp) ?_
+  exact {
+    range := fun _ => ht
+    once := fun _ => T.once (by simp)
+    sub := fun _ => T.sub rfl
+    accEv := fun _ hn => T.accEv rfl hn
+    accEv' := fun _ => rfl
+    cmdB := by intro m hm j hj; simp [issued] at hm; subst hm; exact T.cmdB (i + 1) rfl j hj
+    retB := by intro m hm j b hj; simp [returned] at hm; subst hm; exact T.retB (i + 1) rfl j b hj
+    okB := by
+      intro m hm; simp [okUpTo] at hm; subst hm
+      have := T.okB i rfl
+      refine ⟨this.1, fun j hj => ?_⟩
+      rcases Nat.lt_or_ge j i with h1 | h1
+      · exact this.2 j h1
+      · have : j = i := by omega
+        subst this
+        exact cmdDoneOk_of_guard hw hI ht hcmd (T.aft j rfl).2 hg hce
+    wait := by intro k hk; cases hk
+    inc := by intro i hi; cases hi
+    aft := by intro i hi; cases hi
+    runB := by intro i' hi'; cases hi'; have := (T.aft i rfl).1; omega
+    clo := by intro f hf; cases hf
+    nodone := fun _ => T.nodone (by simp)
+    fin := by intro hf; cases hf
+    df := T.df
+    duniq := T.duniq }
+
+/-- T12: the command scope's Close reports the context's error: RunLoop records it and returns -/
+theorem inv_T12 {g : Graph} {s : St} (hw : WF g) (hI : Inv g s) {t i : Nat} {c : Cmd}
+    (hpc : s.pc t = .afterCmd i) (hcmd : g.cmdAt t i = some c)
+    (hg : cmdChildrenFinished g s c = true) (hce : s.cerr (g.ctx t) = true) :
+    Inv g { s with pc := upd s.pc t (.closing false) } := by
+  have T := hI.ti t
+  unfold TIs at T; rw [hpc] at T
+  have ht : t < g.n := T.range (by simp)
+  refine inv_move_after (s' := { s with pc := upd s.pc t (.closing false) }) hw hI hpc hcmd hg
+    rfl rfl rfl rfl rfl rfl (by simp) ?_
+  exact {
+    range := fun _ => ht
+    once := fun _ => T.once (by simp)
+    sub := fun _ => T.sub rfl
+    accEv := fun _ hn => T.accEv rfl hn
+    accEv' := fun _ => rfl
+    cmdB := by intro m hm; simp [issued] at hm
+    retB := by intro m hm; simp [returned] at hm
+    okB := by intro m hm; simp [okUpTo] at hm
+    wait := by intro k hk; cases hk
+    inc := by intro i hi; cases hi
+    aft := by intro i hi; cases hi
+    runB := by intro i hi; cases hi
+    clo := by
+      intro f _
+      refine ⟨fun j _ hc => ?_, fun _ => hce⟩
+      have hj := T.cmdB (i + 1) rfl j hc
+      rcases Nat.lt_or_ge j i with h1 | h1
+      · exact Or.inl ((T.okB i rfl).2 j h1).1
+      · have : j = i := by omega
+        subst this; exact Or.inl (T.aft j rfl).2
+    nodone := fun _ => T.nodone (by simp)
+    fin := by intro hf; cases hf
+    df := T.df
+    duniq := T.duniq }
+
+/-! ### Submissions -/
+
+/-- TI-level effect of a command returning nil -/
+theorem TI.ret_true {g : Graph} {t i : Nat} {tr : List Ev} {ce : Bool} {tgv : TG}
+    (T : TI g t (.inCmd i) tr ce tgv) : TI g t (.afterCmd i) (tr ++ [.ret t i true]) ce tgv := by
+  have hfd : FreshDone tr [Ev.ret t i true] := by intro u b h; simp at h
+  exact {
+    range := fun _ => T.range (by simp)
+    once := fun _ => created_mono _ (Nat.le_refl _) (T.once (by simp))
+    sub := fun _ => submitted_mono _ (T.sub rfl)
+    accEv := fun _ hn => acceptedEv_mono _ (T.accEv rfl hn)
+    accEv' := fun _ => rfl
+    cmdB := by
+      intro m hm j hj; simp [issued] at hm; subst hm
+      rw [mem_snoc_ne (by simp)] at hj
+      exact T.cmdB (i + 1) rfl j hj
+    retB := by
+      intro m hm j b hj; simp [returned] at hm; subst hm
+      rcases List.mem_append.mp hj with hj | hj
+      · exact Nat.lt_succ_of_lt (T.retB i rfl j b hj)
+      · simp at hj; omega
+    okB := by
+      intro m hm; simp [okUpTo] at hm; subst hm
+      have := T.okB i rfl
+      exact ⟨waitsOk_mono _ this.1, fun j hj => cmdDoneOk_mono _ hfd (this.2 j hj)⟩
+    wait := by intro k hk; cases hk
+    inc := by intro i hi; cases hi
+    aft := by intro i' hi'; cases hi'; exact ⟨(T.inc i rfl).1, by simp⟩
+    runB := by intro i hi; cases hi
+    clo := by intro f hf; cases hf
+    nodone := by
+      intro _ h; apply T.nodone (by simp)
+      unfold hasDone at *
+      rw [mem_snoc_ne (by simp), mem_snoc_ne (by simp)] at h; exact h
+    fin := by intro hf; cases hf
+    df := by intro h; rw [mem_snoc_ne (by simp)] at h; exact T.df h
+    duniq := by intro h; rw [mem_snoc_ne (by simp), mem_snoc_ne (by simp)] at h; exact T.duniq h }
+
+/-- TI-level effect of a command returning an error (which RunLoop records in the context) -/
+theorem TI.ret_false {g : Graph} {t i : Nat} {tr : List Ev} {ce : Bool} {tgv : TG}
+    (T : TI g t (.inCmd i) tr ce tgv) : TI g t (.closing false) (tr ++ [.ret t i false]) true tgv := by
+  exact {
+    range := fun _ => T.range (by simp)
+    once := fun _ => created_mono _ (Nat.le_refl _) (T.once (by simp))
+    sub := fun _ => submitted_mono _ (T.sub rfl)
+    accEv := fun _ hn => acceptedEv_mono _ (T.accEv rfl hn)
+    accEv' := fun _ => rfl
+    cmdB := by intro m hm; simp [issued] at hm
+    retB := by intro m hm; simp [returned] at hm
+    okB := by intro m hm; simp [okUpTo] at hm
+    wait := by intro k hk; cases hk
+    inc := by intro i hi; cases hi
+    aft := by intro i hi; cases hi
+    runB := by intro i hi; cases hi
+    clo := by
+      intro f _
+      refine ⟨fun j _ hc => ?_, fun _ => rfl⟩
+      rw [mem_snoc_ne (by simp)] at hc
+      have hj := T.cmdB (i + 1) rfl j hc
+      rcases Nat.lt_or_ge j i with h1 | h1
+      · exact hasRet_mono _ (Or.inl ((T.okB i rfl).2 j h1).1)
+      · have : j = i := by omega
+        subst this; exact Or.inr (by simp)
+    nodone := by
+      intro _ h; apply T.nodone (by simp)
+      unfold hasDone at *
+      rw [mem_snoc_ne (by simp), mem_snoc_ne (by simp)] at h; exact h
+    fin := by intro hf; cases hf
+    df := fun _ => rfl
+    duniq := by intro h; rw [mem_snoc_ne (by simp), mem_snoc_ne (by simp)] at h; exact T.duniq h }
+
+/-- TI of a task at the moment its submission is decided: `q` is `waiting 0` or `rejected`; the new
+events `es` contain no command/return/done event of the task itself -/
+theorem TI.create {g : Graph} {c : Nat} {tr : List Ev} {ce ce' : Bool} {tgv tgv' : TG}
+    (C : TI g c .idle tr ce tgv) {es : List Ev} {q : PC} (hq : q = .waiting 0 ∨ q = .rejected)
+    (hn : c < g.n)
+    (hcr : created g (tr ++ es) tgv' c)
+    (hsub : q = .waiting 0 → submitted g (tr ++ es) c)
+    (hacc : q = .waiting 0 → nameable g c → acceptedEv g (tr ++ es) c)
+    (hacc' : q = .rejected → ¬ acceptedEv g (tr ++ es) c)
+    (hno : ∀ e ∈ es, (∀ j, e ≠ .cmd c j) ∧ (∀ j b, e ≠ .ret c j b) ∧ (∀ b, e ≠ .done c b))
+    (hce : ce = true → ce' = true) :
+    TI g c q (tr ++ es) ce' tgv' := by
+  have memOld : ∀ e, ((∃ j, e = .cmd c j) ∨ (∃ j b, e = .ret c j b) ∨ (∃ b, e = .done c b)) →
+      e ∈ tr ++ es → e ∈ tr := by
+    intro e he hm
+    rcases List.mem_append.mp hm with hm | hm
+    · exact hm
+    · obtain ⟨h1, h2, h3⟩ := hno e hm
+      rcases he with ⟨j, he⟩ | ⟨j, b, he⟩ | ⟨b, he⟩
+      · exact absurd he (h1 j)
+      · exact absurd he (h2 j b)
+      · exact absurd he (h3 b)
+  have hiss : issued q = some 0 := by rcases hq with h | h <;> subst h <;> rfl
+  have hret : returned q = some 0 := by rcases hq with h | h <;> subst h <;> rfl
+  exact {
+    range := fun _ => hn
+    once := fun _ => hcr
+    sub := by
+      intro ha
+      rcases hq with h | h
+      · exact hsub h
+      · subst h; cases ha
+    accEv := by
+      intro ha hnm
+      rcases hq with h | h
+      · exact hacc h hnm
+      · subst h; cases ha
+    accEv' := by
+      intro ha
+      rcases hq with h | h
+      · subst h; rfl
+      · exact absurd ha (hacc' h)
+    cmdB := by
+      intro m hm j hj; rw [hiss] at hm; cases hm
+      exact C.cmdB 0 rfl j (memOld _ (Or.inl ⟨j, rfl⟩) hj)
+    retB := by
+      intro m hm j b hj; rw [hret] at hm; cases hm
+      exact C.retB 0 rfl j b (memOld _ (Or.inr (Or.inl ⟨j, b, rfl⟩)) hj)
+    okB := by intro m hm; rcases hq with h | h <;> subst h <;> simp [okUpTo] at hm
+    wait := by
+      intro k hk j hj
+      rcases hq with h | h
+      · subst h; cases hk; omega
+      · subst h; cases hk
+    inc := by intro i hi; rcases hq with h | h <;> subst h <;> cases hi
+    aft := by intro i hi; rcases hq with h | h <;> subst h <;> cases hi
+    runB := by intro i hi; rcases hq with h | h <;> subst h <;> cases hi
+    clo := by intro f hf; rcases hq with h | h <;> subst h <;> cases hf
+    nodone := by
+      intro _ h
+      apply C.nodone (by simp)
+      rcases h with h | h
+      · exact Or.inl (memOld _ (Or.inr (Or.inr ⟨_, rfl⟩)) h)
+      · exact Or.inr (memOld _ (Or.inr (Or.inr ⟨_, rfl⟩)) h)
+    fin := by intro hf; rcases hq with h | h <;> subst h <;> cases hf
+    df := fun h => hce (C.df (memOld _ (Or.inr (Or.inr ⟨_, rfl⟩)) h))
+    duniq := fun h => C.duniq ⟨memOld _ (Or.inr (Or.inr ⟨_, rfl⟩)) h.1, memOld _ (Or.inr (Or.inr ⟨_, rfl⟩)) h.2⟩ }
+
+/-- a task whose submission has not been decided is idle -/
+theorem idle_of_not_created {g : Graph} {s : St} (hI : Inv g s) {c : Nat}
+    (h : ¬ created g s.tr (s.tg (tryOf g c)) c) : s.pc c = .idle := by
+  rcases Classical.em (s.pc c = .idle) with h1 | h1
+  · exact h1
+  · exact absurd ((hI.ti c).once h1) h
+
+/-- the general X3 step: the only task that may become active is `c` -/
+theorem x3_general {g : Graph} {s s' : St} (hI : Inv g s) (c : Nat)
+    (h1 : ∀ u, u ≠ c → (s'.pc u).accepted = true → s'.pc u ≠ .finished →
+        (s.pc u).accepted = true ∧ s.pc u ≠ .finished)
+    (h2 : ∀ p j, s.pc p = .afterCmd j → s'.pc p = .afterCmd j)
+    (h3 : (s'.pc c).accepted = true → s'.pc c ≠ .finished → parentAt g s' c) : X3 g s' := by
+  intro u ha hf
+  by_cases hu : u = c
+  · subst hu; exact h3 ha hf
+  · obtain ⟨a, b⟩ := h1 u hu ha hf
+    intro p j hp
+    exact h2 p j (hI.x3 u a b p j hp)
+
+/-- `Create` accepted the wait list: every name in it is in the table, so its acceptance is in the trace -/
+theorem waits_accepted_of_canCreate {g : Graph} {s : St} (hw : WF g) (hI : Inv g s) {c : Nat}
+    (hc : c < g.n) (h : canCreate g s c = true) : ∀ w ∈ g.waits c, acceptedEv g s.tr w := by
+  intro w hwm
+  unfold canCreate at h
+  simp only [Bool.and_eq_true] at h
+  have h1 := h.1
+  rw [show (101 : Nat) = 100 + 1 from rfl] at h1
+  unfold validWL at h1
+  rw [List.all_eq_true] at h1
+  have := h1 w hwm
+  simp only [Bool.and_eq_true, inTable, decide_eq_true_eq] at this
+  obtain ⟨⟨_, hwn, hwa⟩, _⟩ := this
+  rcases hw.wait_cases hc hwm with h2 | h2
+  · omega
+  · exact (hI.ti w).accEv hwa h2.1
+
+theorem t_lt_of_cmd {g : Graph} {t i : Nat} {c : Cmd} (hcmd : g.cmdAt t i = some c) : t < g.n := by
+  rcases Nat.lt_or_ge t g.n with h | h
+  · exact h
+  · have := cmdAt_lt hcmd; rw [body_out h] at this; simp at this
+
+/-- T8/T9: `pip:run` from a body: the nested submission is accepted (`acc = true`) or refused -/
+theorem inv_spawn {g : Graph} {s s' : St} (hw : WF g) (hI : Inv g s) {t i c : Nat}
+    (hpc : s.pc t = .inCmd i) (hcmd : g.cmdAt t i = some (.spawn c)) (acc : Bool)
+    (hcan : acc = true → canCreate g s c = true)
+    (hpc' : s'.pc = upd (upd s.pc c (if acc then .waiting 0 else .rejected)) t
+        (if acc then .afterCmd i else .closing false))
+    (hcerr' : s'.cerr = if acc then s.cerr else upd s.cerr (g.ctx t) true)
+    (htr' : s'.tr = s.tr ++ [.ret t i acc]) (htg' : s'.tg = s.tg) (hmp' : s'.mp = s.mp) :
+    Inv g s' := by
+  have T := hI.ti t
+  unfold TIs at T; rw [hpc] at T
+  have ht : t < g.n := t_lt_of_cmd hcmd
+  obtain ⟨hc, hr⟩ := hw.spawn ht hcmd
+  have hnoret : ¬ hasRet s.tr t i := by
+    intro h; rcases h with h | h <;> exact Nat.lt_irrefl _ (T.retB i rfl i _ h)
+  have hcidle : s.pc c = .idle := by
+    apply idle_of_not_created hI
+    unfold created; rw [hr]; exact hnoret
+  have hct : c ≠ t := by intro h; rw [h, hpc] at hcidle; cases hcidle
+  have C := hI.ti c
+  unfold TIs at C; rw [hcidle] at C
+  have hfd : FreshDone s.tr [Ev.ret t i acc] := by intro u b h; simp at h
+  have hce : ∀ X, s.cerr X = true → s'.cerr X = true := by
+    intro X h; rw [hcerr']; cases acc <;> simp [upd_apply, h]
+  have hpcO : ∀ u, u ≠ t → u ≠ c → s'.pc u = s.pc u := by
+    intro u h1 h2; rw [hpc', upd_other _ _ h1, upd_other _ _ h2]
+  have hpct : s'.pc t = if acc then .afterCmd i else .closing false := by rw [hpc', upd_same]
+  have hpcc : s'.pc c = if acc then .waiting 0 else .rejected := by rw [hpc', upd_other _ _ hct, upd_same]
+  have hi3 : I3 g s' := by
+    apply i3_frame hI.i3 htr'
+    · intro u ha _
+      by_cases h1 : u = t
+      · subst h1; rw [hpct]; cases acc <;> exact ⟨rfl, fun h => by cases h⟩
+      · by_cases h2 : u = c
+        · subst h2; rw [hcidle] at ha; cases ha
+        · rw [hpcO u h1 h2]; exact ⟨ha, fun h => Or.inl h⟩
+    · intro X hX
+      rw [hcerr'] at hX
+      cases acc
+      · simp only [Bool.false_eq_true, if_false, upd_apply] at hX
+        split at hX
+        · rename_i hXe
+          exact Or.inr ⟨t, hXe.symm, by rw [hpct]; rfl, by rw [hpct]; simp⟩
+        · exact Or.inl hX
+      · exact Or.inl hX
+  refine ⟨?_, ?_, ?_, ?_, ?_, ?_, by rw [htg']; exact hI.tgr, hi3⟩
+  · apply ti_frame_all hI htr' hfd hce (fun _ => by rw [htg']; exact Nat.le_refl _) (fun u => u = t ∨ u = c)
+    · intro u hu
+      have h1 : u ≠ t := fun h => hu (Or.inl h)
+      have h2 : u ≠ c := fun h => hu (Or.inr h)
+      refine ⟨hpcO u h1 h2, ?_⟩
+      intro e he; simp at he; subst he
+      intro htch
+      unfold touches at htch
+      rcases htch with h | h | ⟨y, hy1, hy2, hy3⟩
+      · exact h1 h.symm
+      · have hu' : u < g.n := by
+          rcases Nat.lt_or_ge u g.n with hh | hh
+          · exact hh
+          · rw [role_out hh] at h; cases h
+        have := (hw.child hu' h).1
+        rw [hcmd] at this; cases this; exact h2 rfl
+      · have hu' : u < g.n := by
+          rcases Nat.lt_or_ge u g.n with hh | hh
+          · exact hh
+          · rw [role_out hh] at hy1; cases hy1
+        have := (hw.tryOwner (hw.tbody hu' hy1).1).2.1
+        rw [hy2, hy3, hcmd] at this; cases this
+    · intro u hu
+      rcases hu with hu | hu
+      · subst hu
+        unfold TIs
+        rw [hpct, htr', htg', hcerr']
+        cases acc
+        · simp only [Bool.false_eq_true, if_false, upd_same]; exact T.ret_false
+        · simp only [if_true]; exact T.ret_true
+      · subst hu
+        unfold TIs
+        rw [hpcc, htr', htg']
+        apply C.create (by cases acc <;> simp) hc
+        · unfold created; rw [hr]; cases acc <;> simp [hasRet]
+        · intro _; unfold submitted; rw [hr]; exact List.mem_append_left _ (T.inc i rfl).2
+        · intro hq _
+          have : acc = true := by cases acc <;> simp at hq ⊢
+          subst this
+          unfold acceptedEv; rw [hr]; simp
+        · intro hq
+          have : acc = false := by cases acc <;> simp at hq ⊢
+          subst this
+          unfold acceptedEv; rw [hr]
+          simp only [List.mem_append, List.mem_singleton, Ev.ret.injEq, Bool.true_eq_false, and_false,
+            or_false]
+          exact fun h => hnoret (Or.inl h)
+        · intro e he; simp at he; subst he
+          refine ⟨by simp, ?_, by simp⟩
+          intro j b h; simp at h; exact hct h.1.symm
+        · exact hce _
+  · intro y hy
+    apply (hI.yi y hy).frame htr' hfd (by rw [htg']) hce
+    · intro u hu
+      by_cases h1 : u = t
+      · subst h1; rw [hpct]; cases acc <;> rfl
+      · by_cases h2 : u = c
+        · subst h2; rw [hcidle] at hu; cases hu
+        · rw [hpcO u h1 h2]; exact hu
+    · intro h1 h2
+      have hact := (hI.yi y hy).active h1 h2
+      apply hpcO
+      · intro h; rw [h, hpc] at hact; cases hact
+      · intro h; rw [h, hcidle] at hact; cases hact
+    · intro h
+      exact absurd h (ret_not_try hw hy (by simp [hcmd]))
+  · apply x3_general hI c
+    · intro u huc ha hf
+      by_cases h1 : u = t
+      · subst h1; rw [hpc]; exact ⟨rfl, by simp⟩
+      · rw [hpcO u h1 huc] at ha hf; exact ⟨ha, hf⟩
+    · intro p j hp
+      have h1 : p ≠ t := by intro h; rw [h, hpc] at hp; cases hp
+      have h2 : p ≠ c := by intro h; rw [h, hcidle] at hp; cases hp
+      rw [hpcO p h1 h2]; exact hp
+    · intro ha _ p j hp
+      have hpo : parentOf g c = some (t, i) := by unfold parentOf; rw [hr]
+      rw [hpo] at hp; cases hp
+      rw [hpcc] at ha
+      rw [hpct]
+      cases acc
+      · cases ha
+      · rfl
+  · exact hI.mi.frame htr' hmp' (by simp)
+  · apply i2_frame hI htr'
+    intro X hX
+    rw [hcerr'] at hX
+    cases acc
+    · simp only [Bool.false_eq_true, if_false, upd_apply] at hX
+      split at hX
+      · rename_i hXe; subst hXe; rw [htr']; exact Or.inr (Or.inl causeIn_self)
+      · exact Or.inl hX
+    · exact Or.inl hX
+  · rw [htr']
+    apply traceOk_snoc hI.ok
+    refine ⟨(T.inc i rfl).2, hnoret, T.nodone (by simp), ?_⟩
+    unfold retOk; rw [hcmd]
+    intro ha
+    exact waits_accepted_of_canCreate hw hI hc (hcan ha)
+
+/-- T10/T11: `pip:try` from a body: the body task is accepted (`acc = true`) or the command fails -/
+theorem inv_try {g : Graph} {s s' : St} (hw : WF g) (hI : Inv g s) {t i y : Nat}
+    (hpc : s.pc t = .inCmd i) (hcmd : g.cmdAt t i = some (.try_ y)) (acc : Bool)
+    (hpc' : s'.pc = upd (upd s.pc (g.tryd y).body (if acc then .waiting 0 else .rejected)) t
+        (if acc then .afterCmd i else .closing false))
+    (hcerr' : s'.cerr = if acc then s.cerr else upd s.cerr (g.ctx t) true)
+    (htr' : s'.tr = s.tr ++ [.ret t i acc])
+    (htg' : s'.tg = if acc then upd s.tg y .waitBody else s.tg) (hmp' : s'.mp = s.mp) :
+    Inv g s' := by
+  have T := hI.ti t
+  unfold TIs at T; rw [hpc] at T
+  have ht : t < g.n := t_lt_of_cmd hcmd
+  obtain ⟨hy, ho, hix⟩ := hw.tryc ht hcmd
+  obtain ⟨_, _, hc, hr⟩ := hw.tryOwner hy
+  have hnoret : ¬ hasRet s.tr t i := by
+    intro h; rcases h with h | h <;> exact Nat.lt_irrefl _ (T.retB i rfl i _ h)
+  have hcidle : s.pc (g.tryd y).body = .idle := by
+    apply idle_of_not_created hI
+    unfold created; rw [hr]; simp only; rw [ho, hix]; exact hnoret
+  have hct : (g.tryd y).body ≠ t := by intro h; rw [h, hpc] at hcidle; cases hcidle
+  have C := hI.ti (g.tryd y).body
+  unfold TIs at C; rw [hcidle] at C
+  have Y := hI.yi y hy
+  have htgidle : s.tg y = .idle := by
+    rcases Classical.em (s.tg y = .idle) with h | h
+    · exact h
+    · have := Y.started h; rw [ho, hix] at this; exact absurd (Or.inl this) hnoret
+  have hfd : FreshDone s.tr [Ev.ret t i acc] := by intro u b h; simp at h
+  have hce : ∀ X, s.cerr X = true → s'.cerr X = true := by
+    intro X h; rw [hcerr']; cases acc <;> simp [upd_apply, h]
+  have hpcO : ∀ u, u ≠ t → u ≠ (g.tryd y).body → s'.pc u = s.pc u := by
+    intro u h1 h2; rw [hpc', upd_other _ _ h1, upd_other _ _ h2]
+  have hpct : s'.pc t = if acc then .afterCmd i else .closing false := by rw [hpc', upd_same]
+  have hpcc : s'.pc (g.tryd y).body = if acc then .waiting 0 else .rejected := by
+    rw [hpc', upd_other _ _ hct, upd_same]
+  have htgm : ∀ z, (s.tg z).rank ≤ (s'.tg z).rank := by
+    intro z; rw [htg']
+    cases acc
+    · exact Nat.le_refl _
+    · simp only [if_true, upd_apply]; split
+      · rename_i hz; subst hz; rw [htgidle]; exact Nat.zero_le _
+      · exact Nat.le_refl _
+  have htgO : ∀ z, z ≠ y → s'.tg z = s.tg z := by
+    intro z hz; rw [htg']; cases acc
+    · rfl
+    · simp only [if_true]; exact upd_other _ _ hz
+  have hnrO : ∀ z, z < g.tries.length → z ≠ y →
+      Ev.ret (g.tryd z).owner (g.tryd z).idx true ∉ [Ev.ret t i acc] := by
+    intro z hz hzy h
+    simp only [List.mem_singleton, Ev.ret.injEq] at h
+    have := (hw.tryOwner hz).2.1
+    rw [h.1, h.2.1, hcmd] at this
+    cases this; exact hzy rfl
+  have haccm : ∀ u, (s.pc u).accepted = true → (s'.pc u).accepted = true := by
+    intro u hu
+    by_cases h1 : u = t
+    · subst h1; rw [hpct]; cases acc <;> rfl
+    · by_cases h2 : u = (g.tryd y).body
+      · subst h2; rw [hcidle] at hu; cases hu
+      · rw [hpcO u h1 h2]; exact hu
+  have hownO : ∀ z, z < g.tries.length → s.tg z ≠ .idle → s.tg z ≠ .done →
+      s'.pc (g.tryd z).owner = s.pc (g.tryd z).owner := by
+    intro z hz h1 h2
+    have hact := (hI.yi z hz).active h1 h2
+    apply hpcO
+    · intro h; rw [h, hpc] at hact; cases hact
+    · intro h; rw [h, hcidle] at hact; cases hact
+  have htgr : ∀ z, s'.tg z ≠ .idle → z < g.tries.length := by
+    intro z hz
+    by_cases hzy : z = y
+    · subst hzy; exact hy
+    · rw [htgO z hzy] at hz; exact hI.tgr z hz
+  have hi3 : I3 g s' := by
+    apply i3_frame hI.i3 htr'
+    · intro u ha _
+      by_cases h1 : u = t
+      · subst h1; rw [hpct]; cases acc <;> exact ⟨rfl, fun h => by cases h⟩
+      · by_cases h2 : u = (g.tryd y).body
+        · subst h2; rw [hcidle] at ha; cases ha
+        · rw [hpcO u h1 h2]; exact ⟨ha, fun h => Or.inl h⟩
+    · intro X hX
+      rw [hcerr'] at hX
+      cases acc
+      · simp only [Bool.false_eq_true, if_false, upd_apply] at hX
+        split at hX
+        · rename_i hXe
+          exact Or.inr ⟨t, hXe.symm, by rw [hpct]; rfl, by rw [hpct]; simp⟩
+        · exact Or.inl hX
+      · exact Or.inl hX
+  refine ⟨?_, ?_, ?_, ?_, ?_, ?_, htgr, hi3⟩
+  · apply ti_frame_all hI htr' hfd hce htgm (fun u => u = t ∨ u = (g.tryd y).body)
+    · intro u hu
+      have h1 : u ≠ t := fun h => hu (Or.inl h)
+      have h2 : u ≠ (g.tryd y).body := fun h => hu (Or.inr h)
+      refine ⟨hpcO u h1 h2, ?_⟩
+      intro e he; simp at he; subst he
+      intro htch
+      unfold touches at htch
+      rcases htch with h | h | ⟨z, hy1, hy2, hy3⟩
+      · exact h1 h.symm
+      · have hu' : u < g.n := by
+          rcases Nat.lt_or_ge u g.n with hh | hh
+          · exact hh
+          · rw [role_out hh] at h; cases h
+        have := (hw.child hu' h).1
+        rw [hcmd] at this; cases this
+      · have hu' : u < g.n := by
+          rcases Nat.lt_or_ge u g.n with hh | hh
+          · exact hh
+          · rw [role_out hh] at hy1; cases hy1
+        obtain ⟨hz, hzb, _⟩ := hw.tbody hu' hy1
+        have := (hw.tryOwner hz).2.1
+        rw [hy2, hy3, hcmd] at this; cases this
+        exact h2 hzb.symm
+    · intro u hu
+      rcases hu with hu | hu
+      · subst hu
+        unfold TIs
+        rw [hpct, htr', hcerr']
+        cases acc
+        · simp only [Bool.false_eq_true, if_false, upd_same]
+          rw [htg']; exact T.ret_false
+        · simp only [if_true]
+          exact (T.ret_true).frame (es := []) (by simp) (freshDone_nil _) (fun h => h) (htgm _) |> (by simpa using ·)
+      · subst hu
+        unfold TIs
+        rw [hpcc, htr']
+        apply C.create (by cases acc <;> simp) hc
+        · unfold created; rw [hr]; simp only; rw [ho, hix]; cases acc <;> simp [hasRet]
+        · intro _; unfold submitted; rw [hr]; simp only; rw [ho, hix]
+          exact List.mem_append_left _ (T.inc i rfl).2
+        · intro _ hn
+          unfold nameable at hn; rw [hr] at hn
+          rcases hn with h | ⟨_, _, h⟩ <;> cases h
+        · intro hq
+          have : acc = false := by cases acc <;> simp at hq ⊢
+          subst this
+          unfold acceptedEv; rw [hr]; simp only; rw [ho, hix]
+          simp only [List.mem_append, List.mem_singleton, Ev.ret.injEq, Bool.true_eq_false, and_false,
+            or_false]
+          exact fun h => hnoret (Or.inl h)
+        · intro e he; simp at he; subst he
+          refine ⟨by simp, ?_, by simp⟩
+          intro j b h; simp at h; exact hct h.1.symm
+        · exact hce _
+  · intro z hz
+    by_cases hzy : z = y
+    · subst hzy
+      cases acc
+      · apply Y.frame htr' hfd (by rw [htg']; rfl) hce haccm (hownO z hz)
+        intro h; simp at h
+      · have htgz : s'.tg z = .waitBody := by rw [htg']; simp
+        constructor
+        · intro _; rw [htr', ho, hix]; simp
+        · intro _; rw [hpcc]; rfl
+        · intro v hv; rw [htgz] at hv; rcases hv with h | h | h <;> cases h
+        · intro h; rw [htgz] at h; cases h
+        · intro h; rw [htgz] at h; simp [TG.rank] at h
+        · intro h; rw [htgz] at h; simp [TG.rank] at h
+        · intro h; rw [htgz] at h; simp [TG.rank] at h
+        · intro _ _; rw [ho, hix, hpct]; rfl
+        · intro _; rw [htgz]; simp
+    · apply (hI.yi z hz).frame htr' hfd (htgO z hzy) hce haccm (hownO z hz)
+      intro h; exact absurd h (hnrO z hz hzy)
+  · apply x3_general hI (g.tryd y).body
+    · intro u huc ha hf
+      by_cases h1 : u = t
+      · subst h1; rw [hpc]; exact ⟨rfl, by simp⟩
+      · rw [hpcO u h1 huc] at ha hf; exact ⟨ha, hf⟩
+    · intro p j hp
+      have h1 : p ≠ t := by intro h; rw [h, hpc] at hp; cases hp
+      have h2 : p ≠ (g.tryd y).body := by intro h; rw [h, hcidle] at hp; cases hp
+      rw [hpcO p h1 h2]; exact hp
+    · intro ha _ p j hp
+      have hpo : parentOf g (g.tryd y).body = some (t, i) := by
+        unfold parentOf; rw [hr]; simp only; rw [ho, hix]
+      rw [hpo] at hp; cases hp
+      rw [hpcc] at ha
+      rw [hpct]
+      cases acc
+      · cases ha
+      · rfl
+  · exact hI.mi.frame htr' hmp' (by simp)
+  · apply i2_frame hI htr'
+    intro X hX
+    rw [hcerr'] at hX
+    cases acc
+    · simp only [Bool.false_eq_true, if_false, upd_apply] at hX
+      split at hX
+      · rename_i hXe; subst hXe; rw [htr']; exact Or.inr (Or.inl causeIn_self)
+      · exact Or.inl hX
+    · exact Or.inl hX
+  · rw [htr']
+    apply traceOk_snoc hI.ok
+    refine ⟨(T.inc i rfl).2, hnoret, T.nodone (by simp), ?_⟩
+    unfold retOk; rw [hcmd]; trivial
+
+/-! ### Assembly: every step of a task's runner preserves the invariant -/
+
+theorem inv_stepTask {g : Graph} {s s' : St} {t : Nat} (hw : WF g) (hI : Inv g s)
+    (h : stepTask g s t = some s') : Inv g s' := by
+  unfold stepTask at h
+  split at h
+  · rename_i k hpc
+    split at h
+    · rename_i hk
+      cases h; exact inv_T1 hI hpc hk
+    · rename_i w hk
+      split at h
+      · rename_i hwf
+        simp only [beq_iff_eq] at hwf
+        split at h
+        · rename_i hwc
+          cases h; exact inv_T2 hw hI hpc hk hwf hwc
+        · rename_i hwc
+          cases h; exact inv_T3 hI hpc hk hwf (by simpa using hwc)
+      · cases h
+  · rename_i i hpc
+    split at h
+    · rename_i hi; cases h; exact inv_T4 hI hpc hi
+    · rename_i hi; cases h; exact inv_T5 hI hpc hi
+  · rename_i i hpc
+    split at h
+    · cases h
+    · rename_i hcmd; cases h; exact inv_T6 hw hI hpc hcmd
+    · rename_i hcmd; cases h; exact inv_T7 hw hI hpc hcmd
+    · rename_i c hcmd
+      split at h
+      · rename_i hcan
+        cases h
+        exact inv_spawn hw hI hpc hcmd true (fun _ => hcan) rfl rfl rfl rfl rfl
+      · cases h
+        exact inv_spawn hw hI hpc hcmd false (fun hh => by cases hh) rfl rfl rfl rfl rfl
+    · rename_i y hcmd
+      split at h
+      · cases h
+        exact inv_try hw hI hpc hcmd true rfl rfl rfl rfl rfl
+      · cases h
+        exact inv_try hw hI hpc hcmd false rfl rfl rfl rfl rfl
+  · rename_i i hpc
+    split at h
+    · cases h
+    · rename_i c hcmd
+      split at h
+      · rename_i hg
+        split at h
+        · rename_i hce; cases h; exact inv_T12 hw hI hpc hcmd hg hce
+        · rename_i hce; cases h; exact inv_T13 hw hI hpc hcmd hg (by simpa using hce)
+      · cases h
+  · rename_i f hpc
+    cases h; exact inv_T14 hw hI hpc
+  · cases h
+
+theorem inv_stepStop {g : Graph} {s s' : St} {t : Nat} (hI : Inv g s)
+    (h : stepStop g s t = some s') : Inv g s' := by
+  unfold stepStop at h
+  split at h
+  · rename_i i hpc
+    split at h
+    · rename_i hc; cases h; exact inv_S1 hI hpc hc
+    · cases h
+  · cases h
+
+/-! ### The try goroutine -/
+
+theorem inv_tg_only {g : Graph} {s s' : St} (hI : Inv g s) {y : Nat} {q : TG}
+    (hpc' : s'.pc = s.pc) (hcerr' : s'.cerr = s.cerr) (htr' : s'.tr = s.tr) (hmp' : s'.mp = s.mp)
+    (htg' : s'.tg = upd s.tg y q) (hrk : (s.tg y).rank ≤ q.rank) (hnid : s.tg y ≠ .idle)
+    (hY : y < g.tries.length → YI g s' y) : Inv g s' := by
+  have htgm : ∀ z, (s.tg z).rank ≤ (s'.tg z).rank := by
+    intro z; rw [htg', upd_apply]; split
+    · rename_i h; subst h; exact hrk
+    · exact Nat.le_refl _
+  refine ⟨?_, ?_, ?_, ?_, ?_, ?_, ?_, i3_same hI.i3 (es := []) (by simp [htr']) hpc' hcerr'⟩
+  · apply ti_frame_all hI (es := []) (by simp [htr']) (freshDone_nil _) (by rw [hcerr']; exact fun _ h => h)
+      htgm (fun _ => False)
+    · intro u _; exact ⟨by rw [hpc'], by simp⟩
+    · intro u h; cases h
+  · intro z hz
+    by_cases hzy : z = y
+    · subst hzy; exact hY hz
+    · apply (hI.yi z hz).frame (es := []) (by simp [htr']) (freshDone_nil _)
+        (by rw [htg', upd_other _ _ hzy]) (by rw [hcerr']; exact fun _ h => h)
+        (by rw [hpc']; exact fun _ h => h) (by rw [hpc']; exact fun _ _ => rfl) (by simp)
+  · intro u ha hf p j hp
+    rw [hpc'] at ha hf ⊢
+    exact hI.x3 u ha hf p j hp
+  · exact hI.mi.frame (es := []) (by simp [htr']) hmp' (by simp)
+  · apply i2_frame hI (es := []) (by simp [htr'])
+    intro X hX; rw [hcerr'] at hX; exact Or.inl hX
+  · rw [htr']; exact hI.ok
+  · intro z hz
+    rw [htg', upd_apply] at hz
+    split at hz
+    · rename_i h; subst h; exact hI.tgr z hnid
+    · exact hI.tgr z hz
+
+/-- Y1: `separatedScope.Wait()` returned -/
+theorem inv_Y1 {g : Graph} {s : St} (hI : Inv g s) {y : Nat} (htg : s.tg y = .waitBody)
+    (hb : s.pc (g.tryd y).body = .finished) :
+    Inv g { s with tg := upd s.tg y (.subFin (decide (Ev.done (g.tryd y).body true ∈ s.tr))) } := by
+  refine inv_tg_only
+    (s' := { s with tg := upd s.tg y (.subFin (decide (Ev.done (g.tryd y).body true ∈ s.tr))) })
+    hI (y := y) rfl rfl rfl rfl rfl (by rw [htg]; simp [TG.rank]) (by rw [htg]; simp) ?_
+  intro hy
+  have Y := hI.yi y hy
+  have hne1 : s.tg y ≠ .idle := by rw [htg]; simp
+  have hne2 : s.tg y ≠ .done := by rw [htg]; simp
+  have key : ∀ s' : St, s'.tg y = .subFin (decide (Ev.done (g.tryd y).body true ∈ s.tr)) → s'.tr = s.tr →
+      s'.pc = s.pc → YI g s' y := by
+    intro s' htgz htr hpc
+    constructor
+    · intro _; rw [htr]; exact Y.started hne1
+    · intro h; rw [htgz] at h; cases h
+    · intro v hv
+      rw [htgz] at hv
+      rw [htr]
+      rcases hv with h | h | h <;> cases h
+      exact ⟨((hI.ti _).fin hb).1, by simp⟩
+    · intro h; rw [htgz] at h; cases h
+    · intro h; rw [htgz] at h; simp [TG.rank] at h
+    · intro h; rw [htgz] at h; simp [TG.rank] at h
+    · intro h; rw [htgz] at h; simp [TG.rank] at h
+    · intro _ _; rw [hpc]; exact Y.active hne1 hne2
+    · intro _; rw [htgz]; simp
+  exact key _ (upd_same _ _ _) rfl rfl
+
+theorem validWL_nil (acc : Nat → Bool) (wo : Nat → List Nat) (self f : Nat) : validWL acc wo self (f + 1) [] = true := by
+  simp [validWL]
+
+/-- what the generic handler step needs to know about the handler being submitted -/
+structure HandlerAt (g : Graph) (s : St) (y : Nat) (next : TG) (sel : Bool) (hh : Nat) : Prop where
+  lt : hh < g.n
+  par : parentOf g hh = some ((g.tryd y).owner, (g.tryd y).idx)
+  tof : tryOf g hh = y
+  ctx : g.ctx hh = g.ctx (g.tryd y).owner
+  nn : ¬ nameable g hh
+  nw : g.waits hh = []
+  cr : ∀ tr tgv, created g tr tgv hh ↔ next.rank ≤ tgv.rank
+  sb : sel = true → submitted g s.tr hh
+  na : ∀ tr, ¬ acceptedEv g tr hh
+
+/-- a selected handler is accepted -/
+theorem inv_handler_acc {g : Graph} {s s' : St} (hI : Inv g s) {y hh : Nat} {next : TG}
+    (H : HandlerAt g s y next true hh) (hrk : (s.tg y).rank + 1 = next.rank) (hnid : s.tg y ≠ .idle)
+    (hact : s.pc (g.tryd y).owner = .afterCmd (g.tryd y).idx)
+    (hpc' : s'.pc = upd s.pc hh (.waiting 0)) (htg' : s'.tg = upd s.tg y next)
+    (hcerr' : s'.cerr = s.cerr) (htr' : s'.tr = s.tr) (hmp' : s'.mp = s.mp)
+    (hY : YI g s' y) : Inv g s' := by
+  have hcidle : s.pc hh = .idle := by
+    apply idle_of_not_created hI
+    rw [H.tof, H.cr]; omega
+  have C := hI.ti hh
+  unfold TIs at C; rw [hcidle] at C
+  have hown_ne : (g.tryd y).owner ≠ hh := by intro h; rw [h, hcidle] at hact; cases hact
+  have htgm : ∀ z, (s.tg z).rank ≤ (s'.tg z).rank := by
+    intro z; rw [htg', upd_apply]; split
+    · rename_i h; subst h; omega
+    · exact Nat.le_refl _
+  have htr0 : s'.tr = s.tr ++ [] := by simp [htr']
+  have hce : ∀ X, s.cerr X = true → s'.cerr X = true := by rw [hcerr']; exact fun _ h => h
+  have htgr : ∀ z, s'.tg z ≠ .idle → z < g.tries.length := by
+    intro z hz
+    by_cases hzy : z = y
+    · subst hzy; exact hI.tgr z hnid
+    · rw [htg', upd_other _ _ hzy] at hz; exact hI.tgr z hz
+  have hi3 : I3 g s' := by
+    apply i3_frame hI.i3 htr0
+    · intro u ha _
+      by_cases h1 : u = hh
+      · subst h1; rw [hcidle] at ha; cases ha
+      · rw [hpc', upd_other _ _ h1]; exact ⟨ha, fun h => Or.inl h⟩
+    · intro X hX; rw [hcerr'] at hX; exact Or.inl hX
+  refine ⟨?_, ?_, ?_, ?_, ?_, ?_, htgr, hi3⟩
+  · refine ti_frame_all hI htr0 (freshDone_nil _) hce htgm (fun u => u = hh) ?_ ?_
+    · intro u hu; exact ⟨by rw [hpc', upd_other _ _ hu], by simp⟩
+    · intro u hu; subst hu
+      unfold TIs
+      rw [hpc', upd_same, htg', H.tof, upd_same, htr', hcerr']
+      have := C.create (es := []) (q := .waiting 0) (ce' := s.cerr (g.ctx u)) (tgv' := next)
+        (Or.inl rfl) H.lt (by rw [H.cr]; exact Nat.le_refl _)
+        (fun _ => by simpa using H.sb rfl) (fun _ hn => absurd hn H.nn)
+        (fun h => by cases h) (by simp) (fun h => h)
+      simpa using this
+  · intro z hz
+    by_cases hzy : z = y
+    · subst hzy; exact hY
+    · refine (hI.yi z hz).frame htr0 (freshDone_nil _) (by rw [htg', upd_other _ _ hzy]) hce ?_ ?_ (by simp)
+      · intro u hu; rw [hpc']; exact accepted_upd (by rw [hcidle]; intro h; cases h) u hu
+      · intro h1 h2
+        have := (hI.yi z hz).active h1 h2
+        rw [hpc']; apply upd_other; intro h; rw [h, hcidle] at this; cases this
+  · apply x3_general hI hh
+    · intro u hu ha hf
+      rw [hpc', upd_other _ _ hu] at ha hf; exact ⟨ha, hf⟩
+    · intro p j hp
+      rw [hpc', upd_other]; exact hp
+      intro h; rw [h, hcidle] at hp; cases hp
+    · intro _ _ p j hp
+      rw [H.par] at hp; cases hp
+      rw [hpc', upd_other _ _ hown_ne]; exact hact
+  · exact hI.mi.frame htr0 hmp' (by simp)
+  · exact i2_frame hI htr0 (fun X hX => Or.inl (by rw [hcerr'] at hX; exact hX))
+  · rw [htr']; exact hI.ok
+
+/-- a selected handler is refused because the root scope is done -/
+theorem inv_handler_rej {g : Graph} {s s' : St} (hI : Inv g s) {y hh : Nat} {next : TG}
+    (H : HandlerAt g s y next true hh) (hrk : (s.tg y).rank + 1 = next.rank) (hn5 : next.rank ≤ 5)
+    (hnid : s.tg y ≠ .idle)
+    (hact : s.pc (g.tryd y).owner = .afterCmd (g.tryd y).idx) (hroot : s.cerr 0 = true)
+    (hpc' : s'.pc = upd s.pc hh .rejected) (htg' : s'.tg = upd s.tg y .done)
+    (hcerr' : s'.cerr = upd s.cerr (g.ctx (g.tryd y).owner) true) (htr' : s'.tr = s.tr) (hmp' : s'.mp = s.mp)
+    (hY : YI g s' y) : Inv g s' := by
+  have hcidle : s.pc hh = .idle := by
+    apply idle_of_not_created hI
+    rw [H.tof, H.cr]; omega
+  have C := hI.ti hh
+  unfold TIs at C; rw [hcidle] at C
+  have htgm : ∀ z, (s.tg z).rank ≤ (s'.tg z).rank := by
+    intro z; rw [htg', upd_apply]; split
+    · rename_i h; subst h
+      show _ ≤ 5
+      omega
+    · exact Nat.le_refl _
+  have htr0 : s'.tr = s.tr ++ [] := by simp [htr']
+  have hce : ∀ X, s.cerr X = true → s'.cerr X = true := by
+    intro X h; rw [hcerr', upd_apply]; split <;> simp [h]
+  have htgr : ∀ z, s'.tg z ≠ .idle → z < g.tries.length := by
+    intro z hz
+    by_cases hzy : z = y
+    · subst hzy; exact hI.tgr z hnid
+    · rw [htg', upd_other _ _ hzy] at hz; exact hI.tgr z hz
+  have hown_ne : (g.tryd y).owner ≠ hh := by intro h; rw [h, hcidle] at hact; cases hact
+  have hi3 : I3 g s' := by
+    apply i3_frame hI.i3 htr0
+    · intro u ha _
+      by_cases h1 : u = hh
+      · subst h1; rw [hcidle] at ha; cases ha
+      · rw [hpc', upd_other _ _ h1]; exact ⟨ha, fun h => Or.inl h⟩
+    · intro X hX
+      rw [hcerr', upd_apply] at hX
+      split at hX
+      · rename_i hXe
+        refine Or.inr ⟨(g.tryd y).owner, hXe.symm, ?_, ?_⟩
+        · rw [hpc', upd_other _ _ hown_ne, hact]; rfl
+        · rw [hpc', upd_other _ _ hown_ne, hact]; simp
+      · exact Or.inl hX
+  refine ⟨?_, ?_, ?_, ?_, ?_, ?_, htgr, hi3⟩
+  · refine ti_frame_all hI htr0 (freshDone_nil _) hce htgm (fun u => u = hh) ?_ ?_
+    · intro u hu; exact ⟨by rw [hpc', upd_other _ _ hu], by simp⟩
+    · intro u hu; subst hu
+      unfold TIs
+      rw [hpc', upd_same, htg', H.tof, upd_same, htr']
+      have := C.create (es := []) (q := .rejected) (ce' := s'.cerr (g.ctx u)) (tgv' := .done)
+        (Or.inr rfl) H.lt (by rw [H.cr]; exact hn5)
+        (fun h => by cases h) (fun h => by cases h)
+        (fun _ => H.na _) (by simp) (hce _)
+      simpa using this
+  · intro z hz
+    by_cases hzy : z = y
+    · subst hzy; exact hY
+    · refine (hI.yi z hz).frame htr0 (freshDone_nil _) (by rw [htg', upd_other _ _ hzy]) hce ?_ ?_ (by simp)
+      · intro u hu
+        rw [hpc', upd_apply]; split
+        · rename_i h; subst h; rw [hcidle] at hu; cases hu
+        · exact hu
+      · intro h1 h2
+        have := (hI.yi z hz).active h1 h2
+        rw [hpc']; apply upd_other; intro h; rw [h, hcidle] at this; cases this
+  · apply x3_general hI hh
+    · intro u hu ha hf
+      rw [hpc', upd_other _ _ hu] at ha hf; exact ⟨ha, hf⟩
+    · intro p j hp
+      rw [hpc', upd_other]; exact hp
+      intro h; rw [h, hcidle] at hp; cases hp
+    · intro ha _
+      rw [hpc', upd_same] at ha; cases ha
+  · exact hI.mi.frame htr0 hmp' (by simp)
+  · apply i2_frame hI htr0
+    intro X hX
+    rw [hcerr', upd_apply] at hX
+    split at hX
+    · rw [htr']
+      rcases hI.i2 0 hroot with h | h
+      · exact Or.inr (Or.inr h)
+      · exact Or.inr (Or.inr h)
+    · exact Or.inl hX
+  · rw [htr']; exact hI.ok
+
+/-- Y2–Y4: one `Runner.Run` of a handler (or its omission) from the try goroutine -/
+theorem inv_submitHandler {g : Graph} {s : St} (hI : Inv g s) {y : Nat} (hy : y < g.tries.length)
+    {cur next : TG} {v : Bool} (hcur : s.tg y = cur)
+    (hcurv : cur = .subFin v ∨ cur = .subFail v ∨ cur = .subSucc v)
+    (hnext : next = .subFail v ∨ next = .subSucc v ∨ next = .done)
+    (hrk : cur.rank + 1 = next.rank)
+    (ho : Option Nat) (sel : Bool)
+    (hH : ∀ hh, ho = some hh → sel = true → HandlerAt g s y next true hh)
+    (hAcc : ∀ s', s' = submitHandler g s y ho sel next →
+      (∀ u, (s.pc u).accepted = true → (s'.pc u).accepted = true) →
+      (∀ X, s.cerr X = true → s'.cerr X = true) →
+      ((s'.tg y = next ∧ ∀ hh, ho = some hh → sel = true → (s'.pc hh).accepted = true) ∨
+       (s'.tg y = .done ∧ s'.cerr (g.ctx (g.tryd y).owner) = true)) →
+      (3 ≤ (s'.tg y).rank → ∀ h, (g.tryd y).fin = some h →
+          (s'.pc h).accepted = true ∨ s'.cerr (g.ctx (g.tryd y).owner) = true) ∧
+      (4 ≤ (s'.tg y).rank → Ev.done (g.tryd y).body false ∈ s.tr → ∀ h, (g.tryd y).fail = some h →
+          (s'.pc h).accepted = true ∨ s'.cerr (g.ctx (g.tryd y).owner) = true) ∧
+      (5 ≤ (s'.tg y).rank → Ev.done (g.tryd y).body true ∈ s.tr → ∀ h, (g.tryd y).succ = some h →
+          (s'.pc h).accepted = true ∨ s'.cerr (g.ctx (g.tryd y).owner) = true)) :
+    Inv g (submitHandler g s y ho sel next) := by
+  have Y := hI.yi y hy
+  have hne1 : s.tg y ≠ .idle := by rw [hcur]; rcases hcurv with h | h | h <;> subst h <;> simp
+  have hne2 : s.tg y ≠ .done := by rw [hcur]; rcases hcurv with h | h | h <;> subst h <;> simp
+  have hv := Y.v v (by rw [hcur]; exact hcurv)
+  have hact := Y.active hne1 hne2
+  have hrcur : (s.tg y).rank = cur.rank := by rw [hcur]
+  have hn5 : next.rank ≤ 5 := by rcases hnext with h | h | h <;> subst h <;> simp [TG.rank]
+  have hnextne : next ≠ .idle ∧ next ≠ .waitBody := by
+    rcases hnext with h | h | h <;> subst h <;> simp
+  -- YI at the new state, given the generic facts about it
+  have mkY : ∀ s' : St, s' = submitHandler g s y ho sel next → s'.tr = s.tr →
+      (∀ u, (s.pc u).accepted = true → (s'.pc u).accepted = true) →
+      (∀ X, s.cerr X = true → s'.cerr X = true) →
+      ((s'.tg y = next ∧ ∀ hh, ho = some hh → sel = true → (s'.pc hh).accepted = true) ∨
+       (s'.tg y = .done ∧ s'.cerr (g.ctx (g.tryd y).owner) = true)) →
+      (s'.tg y ≠ .done → s'.pc (g.tryd y).owner = s.pc (g.tryd y).owner) → YI g s' y := by
+    intro s' hs' htr hm1 hm2 hout hown
+    have htgn : s'.tg y = next ∨ s'.tg y = .done := by
+      rcases hout with h | h
+      · exact Or.inl h.1
+      · exact Or.inr h.1
+    obtain ⟨a1, a2, a3⟩ := hAcc s' hs' hm1 hm2 hout
+    constructor
+    · intro _; rw [htr]; exact Y.started hne1
+    · intro h; rcases htgn with h1 | h1 <;> rw [h1] at h
+      · exact absurd h hnextne.2
+      · cases h
+    · intro v' hv'
+      rw [htr]
+      rcases htgn with h1 | h1 <;> rw [h1] at hv'
+      · rcases hnext with h2 | h2 | h2 <;> subst h2
+        · rcases hv' with h | h | h <;> cases h; exact hv
+        · rcases hv' with h | h | h <;> cases h; exact hv
+        · rcases hv' with h | h | h <;> cases h
+      · rcases hv' with h | h | h <;> cases h
+    · intro _; rw [htr]; exact hv.1
+    · exact a1
+    · rw [htr]; exact a2
+    · rw [htr]; exact a3
+    · intro _ h2; rw [hown h2]; exact hact
+    · intro _ h
+      rcases htgn with h1 | h1 <;> rw [h1] at h
+      · exact hnextne.1 h
+      · cases h
+  -- nothing to submit
+  have skip : submitHandler g s y ho sel next = { s with tg := upd s.tg y next } →
+      (∀ hh, ho = some hh → sel = true → False) →
+      Inv g (submitHandler g s y ho sel next) := by
+    intro hs' hvac
+    rw [hs']
+    refine inv_tg_only (s' := { s with tg := upd s.tg y next }) hI (y := y) rfl rfl rfl rfl rfl (by omega) hne1 ?_
+    intro _
+    apply mkY _ hs'.symm rfl (fun _ h => h) (fun _ h => h)
+      (Or.inl ⟨upd_same _ _ _, fun hh h1 h2 => (hvac hh h1 h2).elim⟩)
+    intro _; rfl
+  cases ho with
+  | none => exact skip (by unfold submitHandler; rfl) (fun _ h _ => by cases h)
+  | some hh =>
+  cases sel with
+  | false => exact skip (by unfold submitHandler; rfl) (fun _ _ h => by cases h)
+  | true =>
+    have H := hH hh rfl rfl
+    have hcidle : s.pc hh = .idle := by
+      apply idle_of_not_created hI
+      rw [H.tof, H.cr]; omega
+    have hown_ne : (g.tryd y).owner ≠ hh := by intro h; rw [h, hcidle] at hact; cases hact
+    by_cases hcan : canCreate g s hh = true
+    · have hs' : submitHandler g s y (some hh) true next =
+          { s with pc := upd s.pc hh (.waiting 0), tg := upd s.tg y next } := by
+        unfold submitHandler; simp [hcan]
+      rw [hs']
+      refine inv_handler_acc hI H (by omega) hne1 hact rfl rfl rfl rfl rfl ?_
+      apply mkY _ hs'.symm rfl
+        (fun u hu => accepted_upd (by rw [hcidle]; intro h; cases h) u hu) (fun _ h => h)
+        (Or.inl ⟨upd_same _ _ _, fun hh' h1 _ => by cases h1; show (upd s.pc hh _ hh).accepted = true; rw [upd_same]; rfl⟩)
+      intro _; exact upd_other _ _ hown_ne
+    · have hroot : s.cerr 0 = true := by
+        unfold canCreate at hcan
+        rw [H.nw, validWL_nil] at hcan
+        simpa using hcan
+      have hs' : submitHandler g s y (some hh) true next =
+          { s with pc := upd s.pc hh PC.rejected, cerr := upd s.cerr (g.ctx (g.tryd y).owner) true, tg := upd s.tg y TG.done } := by
+        unfold submitHandler; simp [hcan]
+      rw [hs']
+      refine inv_handler_rej hI H (by omega) hn5 hne1 hact hroot rfl rfl rfl rfl rfl ?_
+      apply mkY _ hs'.symm rfl
+        (fun u hu => by
+          show (upd s.pc hh PC.rejected u).accepted = true
+          rw [upd_apply]; split
+          · rename_i h; subst h; rw [hcidle] at hu; cases hu
+          · exact hu)
+        (fun X h => by
+          show upd s.cerr _ true X = true
+          rw [upd_apply]; split <;> simp [h])
+        (Or.inr ⟨upd_same _ _ _, upd_same _ _ _⟩)
+      intro h; exact absurd (upd_same _ _ _) h
+
+theorem done_false_of_not_true {tr : List Ev} {b : Nat} (h : hasDone tr b) (hn : Ev.done b true ∉ tr) :
+    Ev.done b false ∈ tr := by
+  rcases h with h | h
+  · exact absurd h hn
+  · exact h
+
+theorem inv_stepTry {g : Graph} {s s' : St} {y : Nat} (hw : WF g) (hI : Inv g s)
+    (h : stepTry g s y = some s') : Inv g s' := by
+  unfold stepTry at h
+  have hy : s.tg y ≠ .idle → y < g.tries.length := hI.tgr y
+  split at h
+  · rename_i htg
+    split at h
+    · rename_i hb; cases h; exact inv_Y1 hI htg (by simpa using hb)
+    · cases h
+  · -- finally
+    rename_i v htg
+    have hy := hy (by rw [htg]; simp)
+    have Y := hI.yi y hy
+    have hv := Y.v v (Or.inl htg)
+    obtain ⟨h1, h2, h3⟩ := hw.tryHandlers hy
+    cases h
+    apply inv_submitHandler hI hy htg (Or.inl rfl) (Or.inl rfl) rfl
+    · intro hh hho _
+      obtain ⟨a, b⟩ := h3 hh hho
+      exact {
+        lt := a
+        par := by unfold parentOf; rw [b]
+        tof := by unfold tryOf; rw [b]
+        ctx := (hw.hfin a b).2.2.1
+        nn := by unfold nameable; rw [b]; simp
+        nw := (hw.hfin a b).2.2.2.2
+        cr := by intro tr tgv; unfold created; rw [b]; simp [TG.rank]
+        sb := by intro _; unfold submitted; rw [b]; exact hv.1
+        na := by intro tr; unfold acceptedEv; rw [b]; simp }
+    · intro s' _ hm1 hm2 hout
+      rcases hout with ⟨ht, ha⟩ | ⟨ht, hc⟩
+      · rw [ht]
+        refine ⟨fun _ h hf => Or.inl (ha h hf rfl), fun h => ?_, fun h => ?_⟩ <;> simp [TG.rank] at h
+      · exact ⟨fun _ _ _ => Or.inr hc, fun _ _ _ _ => Or.inr hc, fun _ _ _ _ => Or.inr hc⟩
+  · -- fail
+    rename_i v htg
+    have hy := hy (by rw [htg]; simp)
+    have Y := hI.yi y hy
+    have hv := Y.v v (Or.inr (Or.inl htg))
+    obtain ⟨h1, h2, h3⟩ := hw.tryHandlers hy
+    cases h
+    apply inv_submitHandler hI hy htg (Or.inr (Or.inl rfl)) (Or.inr (Or.inl rfl)) rfl
+    · intro hh hho hsel
+      obtain ⟨a, b⟩ := h2 hh hho
+      have hvf : v = false := by cases v <;> simp at hsel ⊢
+      exact {
+        lt := a
+        par := by unfold parentOf; rw [b]
+        tof := by unfold tryOf; rw [b]
+        ctx := (hw.hfail a b).2.2.1
+        nn := by unfold nameable; rw [b]; simp
+        nw := (hw.hfail a b).2.2.2.2
+        cr := by intro tr tgv; unfold created; rw [b]; simp [TG.rank]
+        sb := by
+          intro _; unfold submitted; rw [b]
+          apply done_false_of_not_true hv.1
+          intro hd; have := hv.2.mpr hd; rw [hvf] at this; cases this
+        na := by intro tr; unfold acceptedEv; rw [b]; simp }
+    · intro s' _ hm1 hm2 hout
+      have hold : ∀ h, (g.tryd y).fin = some h →
+          (s'.pc h).accepted = true ∨ s'.cerr (g.ctx (g.tryd y).owner) = true := by
+        intro h hf
+        rcases Y.finAcc (by rw [htg]; simp [TG.rank]) h hf with hh | hh
+        · exact Or.inl (hm1 _ hh)
+        · exact Or.inr (hm2 _ hh)
+      rcases hout with ⟨ht, ha⟩ | ⟨ht, hc⟩
+      · rw [ht]
+        refine ⟨fun _ => hold, fun _ hd h hf => ?_, fun h => ?_⟩
+        · have hvf : v = false := by
+            cases v
+            · rfl
+            · exact absurd ⟨hv.2.mp rfl, hd⟩ (hI.ti _).duniq
+          exact Or.inl (ha h hf (by rw [hvf]; rfl))
+        · simp [TG.rank] at h
+      · exact ⟨fun _ _ _ => Or.inr hc, fun _ _ _ _ => Or.inr hc, fun _ _ _ _ => Or.inr hc⟩
+  · -- success
+    rename_i v htg
+    have hy := hy (by rw [htg]; simp)
+    have Y := hI.yi y hy
+    have hv := Y.v v (Or.inr (Or.inr htg))
+    obtain ⟨h1, h2, h3⟩ := hw.tryHandlers hy
+    cases h
+    apply inv_submitHandler hI hy htg (Or.inr (Or.inr rfl)) (Or.inr (Or.inr rfl)) rfl
+    · intro hh hho hsel
+      obtain ⟨a, b⟩ := h1 hh hho
+      exact {
+        lt := a
+        par := by unfold parentOf; rw [b]
+        tof := by unfold tryOf; rw [b]
+        ctx := (hw.hsucc a b).2.2.1
+        nn := by unfold nameable; rw [b]; simp
+        nw := (hw.hsucc a b).2.2.2.2
+        cr := by intro tr tgv; unfold created; rw [b]; simp [TG.rank]
+        sb := by intro _; unfold submitted; rw [b]; exact hv.2.mp hsel
+        na := by intro tr; unfold acceptedEv; rw [b]; simp }
+    · intro s' _ hm1 hm2 hout
+      have hold1 : ∀ h, (g.tryd y).fin = some h →
+          (s'.pc h).accepted = true ∨ s'.cerr (g.ctx (g.tryd y).owner) = true := by
+        intro h hf
+        rcases Y.finAcc (by rw [htg]; simp [TG.rank]) h hf with hh | hh
+        · exact Or.inl (hm1 _ hh)
+        · exact Or.inr (hm2 _ hh)
+      have hold2 : Ev.done (g.tryd y).body false ∈ s.tr → ∀ h, (g.tryd y).fail = some h →
+          (s'.pc h).accepted = true ∨ s'.cerr (g.ctx (g.tryd y).owner) = true := by
+        intro hd h hf
+        rcases Y.failAcc (by rw [htg]; simp [TG.rank]) hd h hf with hh | hh
+        · exact Or.inl (hm1 _ hh)
+        · exact Or.inr (hm2 _ hh)
+      rcases hout with ⟨ht, ha⟩ | ⟨ht, hc⟩
+      · refine ⟨fun _ => hold1, fun _ => hold2, fun _ hd h hf => ?_⟩
+        exact Or.inl (ha h hf (hv.2.mpr hd))
+      · exact ⟨fun _ _ _ => Or.inr hc, fun _ _ _ _ => Or.inr hc, fun _ _ _ _ => Or.inr hc⟩
+  · cases h
+
+/-! ### The main thread -/
+
+theorem nodup_idx {α : Type} {l : List α} (h : l.Nodup) {i j : Nat} {a : α}
+    (hi : l[i]? = some a) (hj : l[j]? = some a) : i = j := by
+  induction l generalizing i j with
+  | nil => simp at hi
+  | cons x xs ih =>
+    rw [List.nodup_cons] at h
+    cases i with
+    | zero =>
+      cases j with
+      | zero => rfl
+      | succ j =>
+        simp at hi hj
+        subst hi
+        exact absurd (List.mem_of_getElem? hj) h.1
+    | succ i =>
+      cases j with
+      | zero =>
+        simp at hi hj
+        subst hj
+        exact absurd (List.mem_of_getElem? hi) h.1
+      | succ j =>
+        simp at hi hj
+        rw [ih h.2 hi hj]
+
+/-- a step of the main thread that only logs an event `e` that touches no task -/
+theorem inv_main_log {g : Graph} {s s' : St} (hI : Inv g s) {es : List Ev}
+    (hpc' : s'.pc = s.pc) (htg' : s'.tg = s.tg) (hcerr' : s'.cerr = s.cerr) (htr' : s'.tr = s.tr ++ es)
+    (hlen : es.length ≤ 1)
+    (hnt : ∀ u, ∀ e ∈ es, ¬ touches g u e) (hnd : ∀ u b, Ev.done u b ∉ es)
+    (hnr : ∀ p i b, Ev.ret p i b ∉ es)
+    (hok : ∀ e ∈ es, Ok g s.tr e) (hmi : MI g s') : Inv g s' := by
+  have hfd : FreshDone s.tr es := fun u b h => absurd h (hnd u b)
+  refine ⟨?_, ?_, ?_, hmi, ?_, ?_, by rw [htg']; exact hI.tgr, i3_same hI.i3 htr' hpc' hcerr'⟩
+  · refine ti_frame_all hI htr' hfd (by rw [hcerr']; exact fun _ h => h)
+      (fun _ => by rw [htg']; exact Nat.le_refl _) (fun _ => False) ?_ ?_
+    · intro u _; exact ⟨by rw [hpc'], hnt u⟩
+    · intro u h; cases h
+  · intro z hz
+    exact (hI.yi z hz).frame htr' hfd (by rw [htg']) (by rw [hcerr']; exact fun _ h => h)
+      (by rw [hpc']; exact fun _ h => h) (by rw [hpc']; exact fun _ _ => rfl)
+      (fun h => absurd h (hnr _ _ _))
+  · intro u ha hf p j hp
+    rw [hpc'] at ha hf ⊢
+    exact hI.x3 u ha hf p j hp
+  · apply i2_frame hI htr'
+    intro X hX; rw [hcerr'] at hX; exact Or.inl hX
+  · rw [htr']; exact traceOk_ext hI.ok hlen hok
+
+theorem anyCause_of_causeIn {g : Graph} {X : Nat} {tr : List Ev} (h : causeIn g X tr) : anyCause tr := by
+  obtain ⟨e, he, hc⟩ := h
+  refine ⟨e, he, ?_⟩
+  cases e <;> simp [isCause] at hc ⊢
+  rename_i t i b
+  cases b <;> simp [isCause, isFail] at hc ⊢
+
+theorem finished_of_done {g : Graph} {s : St} (hI : Inv g s) {u : Nat} (h : hasDone s.tr u) :
+    s.pc u = .finished := by
+  rcases Classical.em (s.pc u = .finished) with h1 | h1
+  · exact h1
+  · exact absurd h ((hI.ti u).nodone h1)
+
+theorem inv_stepMain {g : Graph} {s s' : St} (hw : WF g) (hI : Inv g s)
+    (h : stepMain g s = some s') : Inv g s' := by
+  unfold stepMain at h
+  split at h
+  · -- sub j
+    rename_i j hmp
+    split at h
+    · rename_i t htop
+      cases h
+      refine inv_main_log hI (es := [.sub t]) rfl rfl rfl rfl (by simp) ?_ (by simp) (by simp) ?_ ?_
+      · intro u e he; simp at he; subst he; simp [touches]
+      · intro e he; simp at he; subst he; exact List.mem_of_getElem? htop
+      · constructor
+        · intro j' hj' u hu
+          have hjj : j' = j := by rcases hj' with h | h <;> cases h <;> rfl
+          subst hjj
+          apply hI.mi.early j' (Or.inl hmp) u
+          rcases hu with hu | hu
+          · exact Or.inl (by simpa [emit] using hu)
+          · exact Or.inr (by simpa [emit] using hu)
+        · intro j' hj'; cases hj'
+          exact ⟨t, htop, by simp [emit]⟩
+        · intro hm; rcases hm with ⟨_, hm⟩ | hm <;> cases hm
+    · rename_i htop
+      cases h
+      refine inv_main_log hI (es := []) rfl rfl rfl (by simp) (by simp) (by simp) (by simp) (by simp) (by simp) ?_
+      constructor
+      · intro j' hj'; rcases hj' with h | h <;> cases h
+      · intro j' hj'; cases hj'
+      · intro hm; rcases hm with ⟨_, hm⟩ | hm <;> cases hm
+  · -- create j
+    rename_i j hmp
+    split at h
+    · rename_i t htop
+      obtain ⟨t', ht', hsub⟩ := hI.mi.cr j hmp
+      rw [htop] at ht'; cases ht'
+      obtain ⟨htn, htr⟩ := hw.top t (List.mem_of_getElem? htop)
+      have hnoacc : ¬ (Ev.acc t ∈ s.tr ∨ Ev.rej t ∈ s.tr) := by
+        intro hh
+        obtain ⟨j', hj', hj''⟩ := hI.mi.early j (Or.inr hmp) t hh
+        have := nodup_idx hw.nodup hj'' htop
+        omega
+      have hcidle : s.pc t = .idle := by
+        apply idle_of_not_created hI
+        unfold created; rw [htr]; exact hnoacc
+      have C := hI.ti t
+      unfold TIs at C; rw [hcidle] at C
+      -- both outcomes at once: `acc` says which
+      have key : ∀ (acc : Bool) (s' : St), (acc = true → canCreate g s t = true) →
+          s'.pc = upd s.pc t (if acc then .waiting 0 else .rejected) → s'.tg = s.tg → s'.cerr = s.cerr →
+          s'.mp = .sub (j + 1) → s'.tr = s.tr ++ [if acc then Ev.acc t else Ev.rej t] → Inv g s' := by
+        intro acc s' hcan hpc' htg' hcerr' hmp' htr'
+        have hfd : FreshDone s.tr [if acc then Ev.acc t else Ev.rej t] := by
+          intro u b h; cases acc <;> simp at h
+        have hce : ∀ X, s.cerr X = true → s'.cerr X = true := by rw [hcerr']; exact fun _ h => h
+        have hi3 : I3 g s' := by
+          apply i3_frame hI.i3 htr'
+          · intro u ha _
+            by_cases h1 : u = t
+            · subst h1; rw [hcidle] at ha; cases ha
+            · rw [hpc', upd_other _ _ h1]; exact ⟨ha, fun h => Or.inl h⟩
+          · intro X hX; rw [hcerr'] at hX; exact Or.inl hX
+        refine ⟨?_, ?_, ?_, ?_, ?_, ?_, by rw [htg']; exact hI.tgr, hi3⟩
+        · refine ti_frame_all hI htr' hfd hce (fun _ => by rw [htg']; exact Nat.le_refl _) (fun u => u = t) ?_ ?_
+          · intro u hu
+            refine ⟨by rw [hpc', upd_other _ _ hu], ?_⟩
+            intro e he; simp at he; subst he
+            cases acc <;> simp [touches] <;> exact fun h => hu h.symm
+          · intro u hu; subst hu
+            unfold TIs
+            rw [hpc', upd_same, htr', htg']
+            apply C.create (by cases acc <;> simp) htn
+            · unfold created; rw [htr]; cases acc <;> simp
+            · intro _; unfold submitted; rw [htr]; exact List.mem_append_left _ hsub
+            · intro hq _
+              have : acc = true := by cases acc <;> simp at hq ⊢
+              subst this
+              unfold acceptedEv; rw [htr]; simp
+            · intro hq
+              have : acc = false := by cases acc <;> simp at hq ⊢
+              subst this
+              unfold acceptedEv; rw [htr]
+              simp only [Bool.false_eq_true, if_false, List.mem_append, List.mem_singleton]
+              intro h
+              rcases h with h | h
+              · exact hnoacc (Or.inl h)
+              · cases h
+            · intro e he; simp at he; subst he
+              cases acc <;> simp
+            · exact hce _
+        · intro z hz
+          refine (hI.yi z hz).frame htr' hfd (by rw [htg']) hce ?_ ?_ ?_
+          · intro u hu; rw [hpc']
+            exact accepted_upd (by rw [hcidle]; intro h; cases h) u hu
+          · intro h1 h2
+            have := (hI.yi z hz).active h1 h2
+            rw [hpc']; apply upd_other; intro h; rw [h, hcidle] at this; cases this
+          · intro h; cases acc <;> simp at h
+        · apply x3_general hI t
+          · intro u hu ha hf
+            rw [hpc', upd_other _ _ hu] at ha hf; exact ⟨ha, hf⟩
+          · intro p i hp
+            rw [hpc', upd_other]; exact hp
+            intro h; rw [h, hcidle] at hp; cases hp
+          · intro _ _ p i hp
+            unfold parentOf at hp; rw [htr] at hp; cases hp
+        · constructor
+          · intro j' hj' u hu
+            rw [hmp'] at hj'
+            have hjj : j' = j + 1 := by rcases hj' with h | h <;> cases h; rfl
+            subst hjj
+            rw [htr'] at hu
+            by_cases hut : u = t
+            · subst hut; exact ⟨j, by omega, htop⟩
+            · have : Ev.acc u ∈ s.tr ∨ Ev.rej u ∈ s.tr := by
+                rcases hu with hu | hu
+                · rcases List.mem_append.mp hu with hu | hu
+                  · exact Or.inl hu
+                  · cases acc <;> simp at hu; exact absurd hu hut
+                · rcases List.mem_append.mp hu with hu | hu
+                  · exact Or.inr hu
+                  · cases acc <;> simp at hu; exact absurd hu hut
+              obtain ⟨j'', h1, h2⟩ := hI.mi.early j (Or.inr hmp) u this
+              exact ⟨j'', by omega, h2⟩
+          · intro j' hj'; rw [hmp'] at hj'; cases hj'
+          · intro hm; rw [hmp'] at hm; rcases hm with ⟨_, hm⟩ | hm <;> cases hm
+        · apply i2_frame hI htr'
+          intro X hX; rw [hcerr'] at hX; exact Or.inl hX
+        · rw [htr']
+          apply traceOk_snoc hI.ok
+          cases acc
+          · exact hsub
+          · exact ⟨hsub, waits_accepted_of_canCreate hw hI htn (hcan rfl)⟩
+      split at h
+      · rename_i hcan
+        cases h
+        exact key true _ (fun _ => hcan) rfl rfl rfl rfl rfl
+      · cases h
+        exact key false _ (fun hh => by cases hh) rfl rfl rfl rfl rfl
+    · cases h
+  · -- wait
+    rename_i hmp
+    split at h
+    · rename_i hall
+      cases h
+      have hall' : ∀ u, u < g.n → (s.pc u).accepted = true → s.pc u = .finished := by
+        intro u hu ha
+        unfold allFinished at hall
+        rw [List.all_eq_true] at hall
+        have := hall u (List.mem_range.mpr hu)
+        simp only [Bool.or_eq_true, Bool.not_eq_true', beq_iff_eq] at this
+        rcases this with h | h
+        · rw [h] at ha; cases ha
+        · exact h
+      refine inv_main_log hI (es := [.mwait (tableOk g s)]) rfl rfl rfl rfl (by simp) ?_ (by simp) (by simp) ?_ ?_
+      · intro u e he; simp at he; subst he; simp [touches]
+      · intro e he; simp at he; subst he
+        refine ⟨?_, ?_⟩
+        · intro u hu hacc
+          rw [List.mem_range] at hu
+          exact ((hI.ti u).fin (hall' u hu ((hI.ti u).accEv' hacc))).1
+        · cases htab : tableOk g s
+          · simp only [Bool.false_eq_true, if_false]
+            unfold tableOk at htab
+            have : ∃ u, u < g.n ∧ (s.pc u).accepted = true ∧ s.cerr (g.ctx u) = true := by
+              apply Classical.byContradiction
+              intro hcon
+              have hall2 : (List.range g.n).all (fun t => !(s.pc t).accepted || !s.cerr (g.ctx t)) = true := by
+                rw [List.all_eq_true]
+                intro u hu
+                rw [List.mem_range] at hu
+                cases ha : (s.pc u).accepted <;> cases hc : s.cerr (g.ctx u) <;> simp
+                exact hcon ⟨u, hu, ha, hc⟩
+              rw [hall2] at htab; cases htab
+            obtain ⟨u, _, _, hc⟩ := this
+            rcases hI.i2 _ hc with h | h <;> exact anyCause_of_causeIn h
+          · simp only [if_true]
+            intro e he
+            cases e <;> simp [isDoneFail]
+            rename_i u b
+            cases b <;> simp [isDoneFail]
+            have hfin := finished_of_done hI (Or.inr he)
+            have hun : u < g.n := (hI.ti u).range (by rw [hfin]; simp)
+            have hc := (hI.ti u).df he
+            unfold tableOk at htab
+            rw [List.all_eq_true] at htab
+            have := htab u (List.mem_range.mpr hun)
+            rw [hfin, hc] at this
+            simp [PC.accepted] at this
+      · constructor
+        · intro j' hj'; rcases hj' with h | h <;> cases h
+        · intro j' hj'; cases hj'
+        · intro _; simp [emit, hasMwait]
+          cases tableOk g s <;> simp
+    · cases h
+  · -- fins t
+    rename_i t hmp
+    have hmw := hI.mi.mw (Or.inl ⟨t, hmp⟩)
+    have mkMI : ∀ s' : St, (∃ es, s'.tr = s.tr ++ es) → ((∃ t', s'.mp = .fins t') ∨ s'.mp = .finished) → MI g s' := by
+      intro s' ⟨es, htr⟩ hmp'
+      constructor
+      · intro j' hj'; rcases hmp' with ⟨_, h⟩ | h <;> rw [h] at hj' <;> rcases hj' with h | h <;> cases h
+      · intro j' hj'; rcases hmp' with ⟨_, h⟩ | h <;> rw [h] at hj' <;> cases hj'
+      · intro _; rw [htr]; exact hasMwait_mono _ hmw
+    split at h
+    · split at h
+      · cases h
+        refine inv_main_log hI (es := [.fin t (!s.cerr (g.ctx t))]) rfl rfl rfl rfl (by simp) ?_ (by simp) (by simp) ?_
+          (mkMI _ ⟨_, rfl⟩ (Or.inl ⟨_, rfl⟩))
+        · intro u e he; simp at he; subst he; simp [touches]
+        · intro e he; simp at he; subst he
+          refine ⟨hmw, ?_⟩
+          cases hc : s.cerr (g.ctx t)
+          · simp only [Bool.not_false, if_true]
+            intro u _ hd heq
+            have := (hI.ti u).df hd
+            rw [heq, hc] at this; cases this
+          · simp only [Bool.not_true, Bool.false_eq_true, if_false]
+            exact hI.i2 _ hc
+      · cases h
+        exact inv_main_log hI (es := []) rfl rfl rfl (by simp) (by simp) (by simp) (by simp) (by simp) (by simp)
+          (mkMI _ ⟨[], by simp⟩ (Or.inl ⟨_, rfl⟩))
+    · cases h
+      refine inv_main_log hI (es := [.root (!s.cerr 0)]) rfl rfl rfl rfl (by simp) ?_ (by simp) (by simp) ?_
+        (mkMI _ ⟨_, rfl⟩ (Or.inr rfl))
+      · intro u e he; simp at he; subst he; simp [touches]
+      · intro e he; simp at he; subst he
+        refine ⟨hmw, ?_⟩
+        cases hc : s.cerr 0
+        · simp only [Bool.not_false, if_true]
+          intro u _ hd heq
+          have := (hI.ti u).df hd
+          rw [heq, hc] at this; cases this
+        · simp only [Bool.not_true, Bool.false_eq_true, if_false]
+          rcases hI.i2 _ hc with h | h <;> exact h
+  · cases h
+
+/-- every step preserves the invariant -/
+theorem inv_step {g : Graph} {s s' : St} (hw : WF g) (hI : Inv g s) (l : Label)
+    (h : step g s l = some s') : Inv g s' := by
+  cases l with
+  | main => exact inv_stepMain hw hI h
+  | task t => exact inv_stepTask hw hI h
+  | stop t => exact inv_stepStop hI h
+  | tryg y => exact inv_stepTry hw hI h
+
+/-- the invariant holds in every reachable state -/
+theorem inv_reachable {g : Graph} (hw : WF g) {s : St} (h : LTS.Reachable (sys g) s) : Inv g s :=
+  LTS.inv_of_init_step (sys g) (Inv g) (inv_init g) (fun s i t hI hs => inv_step hw hI i hs) s h
+
+/-- every run of the model satisfies the declarative trace property -/
+theorem run_traceOk {g : Graph} (hw : WF g) (sched : List Label) : TraceOk g (run g sched).tr :=
+  (inv_reachable hw (LTS.run_reachable (sys g) sched)).ok
 
 end Goat.Pipeline
